@@ -227,6 +227,10 @@ typedef struct {
 	char loss[6][64];
 	int  n_note; // free-form violations found by the program (bad data ...)
 	char note[4][96];
+	int  pass2;      // the program ran its second pass (same objects, no failure armed)
+	int  n_wedged;   // steps of the second pass that did not succeed
+	char wedged[4][96];
+	int  pass1_enomem_calls; // API calls of the first pass that returned NNG_ENOMEM
 	long leak_blocks, leak_bytes;
 	int  n_leaks;
 	struct {
@@ -487,6 +491,7 @@ c20_nng_init(void)
 #define A_CANCEL 4u // NNG_ECANCELED / NNG_ESTOPPED (we stopped it ourselves)
 #define A_AGAIN 8u  // NNG_EAGAIN on a non-blocking call
 #define A_PEER 16u  // NNG_EPROTO: the peer refused the connection at protocol level
+#define A_PORT0 32u // the call binds TCP port 0: NNG_EADDRINUSE means no ephemeral port is left
 
 static int g_tmo_io   = 500;  // ms: one message exchange
 static int g_tmo_conn = 1500; // ms: connection establishment
@@ -578,6 +583,22 @@ child_harness_fail(const char *fmt, ...)
 	_exit(3);
 }
 
+static int  g_pass = 1;   // 2: second pass on the same objects, nothing armed
+static bool g_soft;       // an attempt that may be repeated: record nothing
+static char g_last_fail[96];
+
+static void
+note_wedged(const char *fmt, ...)
+{
+	va_list ap;
+	va_start(ap, fmt);
+	if (sh->n_wedged < 4) {
+		vsnprintf(sh->wedged[sh->n_wedged], 96, fmt, ap);
+	}
+	sh->n_wedged++;
+	va_end(ap);
+}
+
 // classify the result of one API call
 static int
 ck_(const char *fn, unsigned allow, int rv)
@@ -585,16 +606,31 @@ ck_(const char *fn, unsigned allow, int rv)
 	if (rv == 0) {
 		return 0;
 	}
+	if (rv == NNG_EADDRINUSE && (allow & A_PORT0)) {
+		// a bind to port 0 / an accept that cannot get a port: the
+		// machine is out of ephemeral ports (TIME_WAIT), not nng
+		sh->env_skip = 1;
+		return rv;
+	}
+	if (g_soft) {
+		snprintf(g_last_fail, sizeof(g_last_fail), "%s=%s", fn, errname(rv));
+		return rv;
+	}
+	if (g_pass == 2) {
+		// Nothing is armed any more and the objects are the ones that
+		// saw the failure: every step has to work now.
+		if (((allow & A_CANCEL) && (rv == NNG_ECANCELED || rv == NNG_ESTOPPED || rv == NNG_ECLOSED)) ||
+		    ((allow & A_AGAIN) && rv == NNG_EAGAIN)) {
+			return rv;
+		}
+		note_wedged("%s=%s", fn, errname(rv));
+		return rv;
+	}
 	if (rv == NNG_ENOMEM) {
+		sh->pass1_enomem_calls++;
 		if (sh->n_enomem++ == 0) {
 			snprintf(sh->enomem_call, sizeof(sh->enomem_call), "%s", fn);
 		}
-		return rv;
-	}
-	if (rv == NNG_EADDRINUSE) {
-		// every program binds port 0 or a unique name: this is the
-		// machine running out of ephemeral ports (TIME_WAIT), not nng
-		sh->env_skip = 1;
 		return rv;
 	}
 	bool ok = false;
@@ -606,11 +642,9 @@ ck_(const char *fn, unsigned allow, int rv)
 	        rv == NNG_ECONNREFUSED || rv == NNG_ECONNABORTED)) {
 		ok = true;
 	}
-	if ((allow & A_CANCEL) && (rv == NNG_ECANCELED || rv == NNG_ESTOPPED || rv == NNG_ECLOSED)) {
-		ok = true;
-	}
-	if ((allow & A_AGAIN) && rv == NNG_EAGAIN) {
-		ok = true;
+	if (((allow & A_CANCEL) && (rv == NNG_ECANCELED || rv == NNG_ESTOPPED || rv == NNG_ECLOSED)) ||
+	    ((allow & A_AGAIN) && rv == NNG_EAGAIN)) {
+		return rv; // the expected answer, not a loss
 	}
 	if ((allow & A_PEER) && rv == NNG_EPROTO) {
 		ok = true;
@@ -653,18 +687,41 @@ typedef struct {
 	const char *s;
 } parg;
 
-static _Atomic int pc_a, pc_b; // attached pipes per socket (net)
+static _Atomic int pc_a, pc_b, pc_c; // attached pipes per socket (net)
+
+// the set of attached pipes per socket, by pipe id (a pipe that is removed
+// without ever having been added must not be counted)
+static pthread_mutex_t pset_mtx = PTHREAD_MUTEX_INITIALIZER;
+static int             pset_ids[3][32];
 
 static void
 pipe_cb(nng_pipe p, nng_pipe_ev ev, void *arg)
 {
-	(void) p;
-	_Atomic int *c = arg;
-	if (ev == NNG_PIPE_EV_ADD_POST) {
-		atomic_fetch_add(c, 1);
-	} else if (ev == NNG_PIPE_EV_REM_POST) {
-		atomic_fetch_sub(c, 1);
+	_Atomic int *c   = arg;
+	int         *ids = pset_ids[c == &pc_a ? 0 : c == &pc_b ? 1 : 2];
+	int          id  = nng_pipe_id(p), n = 0;
+	if (ev != NNG_PIPE_EV_ADD_POST && ev != NNG_PIPE_EV_REM_POST) {
+		return;
 	}
+	pthread_mutex_lock(&pset_mtx);
+	for (int i = 0; i < 32; i++) {
+		if (ev == NNG_PIPE_EV_REM_POST && ids[i] == id) {
+			ids[i] = 0;
+		}
+	}
+	if (ev == NNG_PIPE_EV_ADD_POST) {
+		for (int i = 0; i < 32; i++) {
+			if (ids[i] == 0) {
+				ids[i] = id;
+				break;
+			}
+		}
+	}
+	for (int i = 0; i < 32; i++) {
+		n += ids[i] != 0;
+	}
+	atomic_store(c, n);
+	pthread_mutex_unlock(&pset_mtx);
 }
 
 // unarmed
@@ -672,16 +729,17 @@ static void
 watch_pipes(nng_socket s, _Atomic int *ctr)
 {
 	atomic_store(ctr, 0);
+	memset(pset_ids[ctr == &pc_a ? 0 : ctr == &pc_b ? 1 : 2], 0, sizeof(pset_ids[0]));
 	SETUP(nng_pipe_notify, s, NNG_PIPE_EV_ADD_POST, pipe_cb, ctr);
 	SETUP(nng_pipe_notify, s, NNG_PIPE_EV_REM_POST, pipe_cb, ctr);
 }
 
 static bool
-wait_pipes(int ms)
+wait_counts(_Atomic int *c1, int n1, _Atomic int *c2, int n2, int ms)
 {
 	uint64_t end = vf_now_ns() + (uint64_t) ms * 1000000ULL;
 	for (;;) {
-		if (atomic_load(&pc_a) >= 1 && atomic_load(&pc_b) >= 1) {
+		if (atomic_load(c1) >= n1 && atomic_load(c2) >= n2) {
 			return true;
 		}
 		if (vf_now_ns() > end) {
@@ -689,6 +747,12 @@ wait_pipes(int ms)
 		}
 		vf_usleep(500);
 	}
+}
+
+static bool
+wait_pipes(int ms)
+{
+	return wait_counts(&pc_a, 1, &pc_b, 1, ms);
 }
 
 // unarmed
@@ -701,49 +765,53 @@ set_timeouts(nng_socket s)
 	(void) nng_socket_set_ms(s, NNG_OPT_RECONNMAXT, 20);
 }
 
-static void
-open_pair_of(int kind, nng_socket *a, nng_socket *b, bool raw_a, bool raw_b);
+// ---------------------------------------------------------------- passes
+// Pass 1 runs with the failpoint armed.  When the failure has fired, the
+// program disarms and runs pass 2 on the SAME objects: whatever could not be
+// done is done again and one more exchange is made.  Pass 2 must succeed
+// completely; a path that stays dead is thereby told apart from the loss of
+// one message or one connection.  The bounds are generous and are only
+// reached by a wedged object.
+#define P2_TMO_IO 2000
+#define P2_TMO_CONN 5000
+#define P2_BUDGET_MS 20000
+static uint64_t g_p2_deadline;
 
-// send one message of 'len' bytes from -> to and check what arrives.
-// returns 0 when it arrived intact; otherwise the exchange was given up.
-static int
-xchg(nng_socket from, nng_socket to, size_t len, uint32_t tag)
+static bool
+want_pass2(void)
 {
-	nng_msg *m = NULL, *r = NULL;
-	int      rv;
-	if ((rv = CK(0, nng_msg_alloc, &m, 0)) != 0) {
-		return rv;
-	}
-	uint8_t *buf = malloc(len);
-	vf_fill(buf, len, tag);
-	rv = CK(0, nng_msg_append, m, buf, len);
-	if (rv != 0) {
-		nng_msg_free(m);
-		free(buf);
-		return rv;
-	}
-	if ((rv = CK(A_TMO | A_CONN, nng_sendmsg, from, m, 0)) != 0) {
-		nng_msg_free(m);
-		free(buf);
-		return rv;
-	}
-	if ((rv = CK(A_TMO | A_CONN, nng_recvmsg, to, &r, 0)) != 0) {
-		free(buf);
-		return rv;
-	}
-	if (nng_msg_len(r) != len || memcmp(nng_msg_body(r), buf, len) != 0) {
-		note_violation("bad-data:recvmsg len %zu want %zu", nng_msg_len(r), len);
-		rv = -1;
-	}
-	nng_msg_free(r);
-	free(buf);
-	return rv;
+	return sh->fired && !sh->env_skip && g_pass == 1;
+}
+
+static void
+begin_pass2(void)
+{
+	disarm();
+	g_pass        = 2;
+	sh->pass2     = 1;
+	g_tmo_io      = P2_TMO_IO;
+	g_tmo_conn    = P2_TMO_CONN;
+	g_p2_deadline = vf_now_ns() + (uint64_t) P2_BUDGET_MS * 1000000ULL;
+}
+
+// attempts of a step that may need more than one go in pass 2 (the first
+// message after a lost connection may legitimately be lost again)
+static bool
+p2_more(int attempt)
+{
+	return attempt < 2 || (attempt < 6 && vf_now_ns() < g_p2_deadline);
+}
+
+static void
+p2_timeouts(nng_socket s)
+{
+	(void) nng_socket_set_ms(s, NNG_OPT_SENDTIMEO, g_tmo_io);
+	(void) nng_socket_set_ms(s, NNG_OPT_RECVTIMEO, g_tmo_io);
 }
 
 // Let in-flight completions run before tearing down: closing a pipe while a
-// send completion is still queued is a scenario of its own (and leaks the
-// message in the ws transport even without any allocation failure), it is
-// not what this check enumerates.
+// send completion is still queued is a scenario of its own, it is not what
+// this check enumerates.
 static bool g_settled;
 static void
 settle(void)
@@ -763,8 +831,187 @@ close_sock(nng_socket s)
 	}
 }
 
+// Messages of given-up attempts (REQ resends, late deliveries) may sit in a
+// receiver; protocols with back-pressure (inproc has no buffer, REP reads
+// one request at a time) then block the next send.  Before an attempt of
+// pass 2 the application side is emptied, as an application would do.
+static void
+drain(nng_socket s)
+{
+	for (int i = 0; i < 16; i++) {
+		nng_msg *m = NULL;
+		if (nng_recvmsg(s, &m, NNG_FLAG_NONBLOCK) != 0) {
+			return;
+		}
+		nng_msg_free(m);
+	}
+}
+
+static void
+drain_ctx(nng_ctx c)
+{
+	for (int i = 0; i < 16; i++) {
+		nng_msg *m = NULL;
+		if (nng_ctx_recvmsg(c, &m, NNG_FLAG_NONBLOCK) != 0) {
+			return;
+		}
+		nng_msg_free(m);
+	}
+}
+
+// ---------------------------------------------------------------- messages
+// body: [u32 tag][fill(tag)]; tags only grow, so a message of an earlier,
+// given-up attempt that arrives late is recognised and skipped.
+static uint32_t g_tag;
+
+static int
+msg_make(nng_msg **mp, size_t len, uint32_t tag)
+{
+	nng_msg *m = NULL;
+	int      rv;
+	if (len < 8) {
+		len = 8;
+	}
+	if ((rv = CK(0, nng_msg_alloc, &m, 0)) != 0) {
+		return rv;
+	}
+	uint8_t *buf = malloc(len);
+	vf_fill(buf, len, tag);
+	memcpy(buf, &tag, 4);
+	rv = CK(0, nng_msg_append, m, buf, len);
+	free(buf);
+	if (rv != 0) {
+		nng_msg_free(m);
+		return rv;
+	}
+	*mp = m;
+	return 0;
+}
+
+// 0 intact, 1 stale (older tag), -1 damaged
+static int
+msg_check(nng_msg *m, size_t len, uint32_t tag)
+{
+	uint32_t got = 0;
+	if (len < 8) {
+		len = 8;
+	}
+	if (nng_msg_len(m) >= 4) {
+		memcpy(&got, nng_msg_body(m), 4);
+	}
+	if (got != tag && got != 0 && got < tag && got + 64 > tag) {
+		return 1;
+	}
+	if (nng_msg_len(m) != len || got != tag) {
+		note_violation("bad-data:message len %zu want %zu", nng_msg_len(m), len);
+		return -1;
+	}
+	uint8_t *buf = malloc(len);
+	vf_fill(buf, len, tag);
+	memcpy(buf, &tag, 4);
+	int bad = memcmp(buf, nng_msg_body(m), len) != 0;
+	free(buf);
+	if (bad) {
+		note_violation("bad-data:message body differs");
+		return -1;
+	}
+	return 0;
+}
+
+typedef int (*recv_fn)(void *who, nng_msg **mp);
+static int
+recv_sock(void *who, nng_msg **mp)
+{
+	return CK(A_TMO | A_CONN, nng_recvmsg, *(nng_socket *) who, mp, 0);
+}
+static int
+recv_ctx(void *who, nng_msg **mp)
+{
+	return CK(A_TMO | A_CONN, nng_ctx_recvmsg, *(nng_ctx *) who, mp, 0);
+}
+
+// receive the message with this tag (skipping late ones of earlier attempts)
+static int
+recv_tagged(recv_fn fn, void *who, size_t len, uint32_t tag, nng_msg **keep)
+{
+	// (a REQ that lost its reply resends on every tick: the backlog of
+	// late copies can be long, it is bounded by time, not by count)
+	uint64_t end = vf_now_ns() + 2ULL * (uint64_t) g_tmo_io * 1000000ULL;
+	for (int i = 0; i < 100000; i++) {
+		nng_msg *r = NULL;
+		int      rv;
+		if (i >= 8 && vf_now_ns() > end) {
+			break;
+		}
+		if ((rv = fn(who, &r)) != 0) {
+			return rv;
+		}
+		int c = msg_check(r, len, tag);
+		if (getenv("C20_TRACE") != NULL) {
+			uint32_t got = 0;
+			memcpy(&got, nng_msg_body(r), nng_msg_len(r) >= 4 ? 4 : 0);
+			fprintf(stderr, "[%llu ms recv_tagged want %u got %u len %zu -> %d]\n", (unsigned long long) (vf_now_ns() / 1000000) % 100000, tag, got, nng_msg_len(r), c);
+		}
+		if (c == 1) {
+			nng_msg_free(r);
+			continue;
+		}
+		if (keep != NULL && c == 0) {
+			*keep = r;
+		} else {
+			nng_msg_free(r);
+		}
+		return c;
+	}
+	if (g_soft) {
+		snprintf(g_last_fail, sizeof(g_last_fail), "only-stale-messages");
+	} else {
+		note_loss("only-stale-messages");
+	}
+	return NNG_ETIMEDOUT;
+}
+
+// send one message of 'len' bytes from -> to and check what arrives.
+// returns 0 when it arrived intact; otherwise the exchange was given up.
+static int
+xchg(nng_socket from, nng_socket to, size_t len)
+{
+	nng_msg *m   = NULL;
+	uint32_t tag = ++g_tag;
+	int      rv;
+	if ((rv = msg_make(&m, len, tag)) != 0) {
+		return rv;
+	}
+	if ((rv = CK(A_TMO | A_CONN, nng_sendmsg, from, m, 0)) != 0) {
+		nng_msg_free(m);
+		return rv;
+	}
+	return recv_tagged(recv_sock, &to, len, tag, NULL);
+}
+
 enum { X_PAIR0 = 0, X_PAIR1, X_PUBSUB, X_REQREP, X_PIPELINE, X_SURVEY, X_BUS, X_POLY, X_N };
 static const char *x_names[X_N] = { "pair0", "pair1", "pubsub", "reqrep", "pipeline", "survey", "bus", "pair1poly" };
+
+static bool
+two_way(int kind)
+{
+	return kind == X_PAIR0 || kind == X_PAIR1 || kind == X_REQREP ||
+	    kind == X_SURVEY || kind == X_BUS || kind == X_POLY;
+}
+
+// one exchange in the protocol's natural pattern
+static int
+round_trip(int kind, nng_socket a, nng_socket b, size_t len_ab, size_t len_ba)
+{
+	int rv;
+	if ((rv = xchg(a, b, len_ab)) != 0) {
+		return rv;
+	}
+	if (two_way(kind)) {
+		rv = xchg(b, a, len_ba);
+	}
+	return rv;
+}
 
 // unarmed: a = the side that sends first
 static void
@@ -813,6 +1060,237 @@ open_pair_of(int kind, nng_socket *a, nng_socket *b, bool raw_a, bool raw_b)
 	watch_pipes(*b, &pc_b);
 }
 
+// ---------------------------------------------------------------- links
+// Two sockets and the endpoints between them; every step remembers whether
+// it has been done, so that pass 2 does exactly what is still missing.
+typedef struct {
+	nng_socket   a, b; // a dials and sends first, b listens
+	int          kind;
+	int          t; // VF_T_*, VF_T_N = udp
+	bool         raw_b;
+	const char  *byname;
+	char         lurl[128], durl[160];
+	nng_listener l, l2;
+	nng_dialer   d;
+	bool         listening, dialed, have_l, have_l2;
+	size_t       len_ab, len_ba;
+} c20_link;
+
+static void
+link_open(c20_link *L, int kind, int t, bool raw_b)
+{
+	memset(L, 0, sizeof(*L));
+	L->kind   = kind;
+	L->t      = t;
+	L->raw_b  = raw_b;
+	L->len_ab = 64;
+	L->len_ba = 300;
+	open_pair_of(kind, &L->a, &L->b, false, raw_b);
+	switch (t) {
+	case VF_T_INPROC:
+		snprintf(L->lurl, sizeof(L->lurl), "inproc://c20");
+		break;
+	case VF_T_IPC:
+		snprintf(L->lurl, sizeof(L->lurl), "ipc:///tmp/c20-%d.sock", (int) getpid());
+		break;
+	case VF_T_TCP:
+		snprintf(L->lurl, sizeof(L->lurl), "tcp://127.0.0.1:0");
+		break;
+	case VF_T_WS:
+		snprintf(L->lurl, sizeof(L->lurl), "ws://127.0.0.1:0/c20");
+		break;
+	case VF_T_N:
+		snprintf(L->lurl, sizeof(L->lurl), "udp://127.0.0.1:0");
+		break;
+	default:
+		snprintf(L->lurl, sizeof(L->lurl), "socket://");
+		break;
+	}
+}
+
+static bool
+link_ip(const c20_link *L)
+{
+	return L->t == VF_T_TCP || L->t == VF_T_WS || L->t == VF_T_N;
+}
+
+static int
+link_listen(c20_link *L)
+{
+	int rv;
+	if (L->listening) {
+		return 0;
+	}
+	if (L->t == VF_T_SOCKFD) {
+		if (!L->have_l) {
+			if ((rv = CK(0, nng_listener_create, &L->l, L->b, L->lurl)) != 0 ||
+			    (rv = CK(0, nng_listener_start, L->l, 0)) != 0) {
+				if (nng_listener_id(L->l) > 0) {
+					(void) nng_listener_close(L->l);
+				}
+				return rv;
+			}
+			L->have_l = true;
+		}
+		if (!L->have_l2) {
+			if ((rv = CK(0, nng_listener_create, &L->l2, L->a, L->lurl)) != 0 ||
+			    (rv = CK(0, nng_listener_start, L->l2, 0)) != 0) {
+				if (nng_listener_id(L->l2) > 0) {
+					(void) nng_listener_close(L->l2);
+				}
+				return rv;
+			}
+			L->have_l2 = true;
+		}
+		L->listening = true;
+		return 0;
+	}
+	if ((rv = CK(link_ip(L) ? A_PORT0 : 0, nng_listen, L->b, L->lurl, &L->l, 0)) != 0) {
+		return rv;
+	}
+	L->have_l    = true;
+	L->listening = true;
+	snprintf(L->durl, sizeof(L->durl), "%s", L->lurl);
+	return 0;
+}
+
+static int
+link_durl(c20_link *L)
+{
+	int rv, port = 0;
+	if (!link_ip(L)) {
+		return 0;
+	}
+	if ((rv = CK(0, nng_listener_get_int, L->l, NNG_OPT_BOUND_PORT, &port)) != 0) {
+		return rv;
+	}
+	if (L->t == VF_T_N) {
+		snprintf(L->durl, sizeof(L->durl), "udp://127.0.0.1:%d", port);
+	} else if (L->byname != NULL) { // goes through the resolver
+		snprintf(L->durl, sizeof(L->durl), "tcp://%s:%d", L->byname, port);
+	} else if (L->t == VF_T_TCP) {
+		snprintf(L->durl, sizeof(L->durl), "tcp://127.0.0.1:%d", port);
+	} else {
+		snprintf(L->durl, sizeof(L->durl), "ws://127.0.0.1:%d/c20", port);
+	}
+	// remember it as the listen URL too: a listener that has to be
+	// re-created in pass 2 must be found by the existing dialer
+	if (L->t == VF_T_TCP && L->byname == NULL) {
+		snprintf(L->lurl, sizeof(L->lurl), "%s", L->durl);
+	}
+	return 0;
+}
+
+static int
+link_dial(c20_link *L)
+{
+	int rv;
+	if (L->t == VF_T_SOCKFD) {
+		// a fresh socketpair whenever there is no connection
+		int fds[2] = { -1, -1 };
+		if ((rv = CK(0, nng_socket_pair, fds)) != 0) {
+			return rv;
+		}
+		if ((rv = CK(0, nng_listener_set_int, L->l, NNG_OPT_SOCKET_FD, fds[0])) != 0) {
+			close(fds[0]);
+			close(fds[1]);
+			return rv;
+		}
+		if ((rv = CK(0, nng_listener_set_int, L->l2, NNG_OPT_SOCKET_FD, fds[1])) != 0) {
+			close(fds[1]);
+			return rv;
+		}
+		return 0;
+	}
+	if (L->dialed) {
+		return 0; // the dialer exists and reconnects by itself
+	}
+	if ((rv = link_durl(L)) != 0) {
+		return rv;
+	}
+	if ((rv = CK(A_CONN | A_TMO | A_PEER, nng_dial, L->a, L->durl, &L->d, 0)) != 0) {
+		return rv; // a failed synchronous dial leaves no dialer behind
+	}
+	L->dialed = true;
+	return 0;
+}
+
+// pass 1: listen, dial, wait for the pipes
+static int
+link_connect(c20_link *L)
+{
+	int rv;
+	if ((rv = link_listen(L)) != 0 || (rv = link_dial(L)) != 0) {
+		return rv;
+	}
+	if (!wait_pipes(g_tmo_conn)) {
+		note_loss("no-connection");
+		return NNG_ETIMEDOUT;
+	}
+	return 0;
+}
+
+static int
+link_round(c20_link *L)
+{
+	if (L->raw_b) {
+		return 0; // a raw peer: the connection is what is exercised
+	}
+	return round_trip(L->kind, L->a, L->b, L->len_ab, L->len_ba);
+}
+
+// pass 2: whatever is missing is done again, then one round must work
+static void
+link_pass2(c20_link *L)
+{
+	p2_timeouts(L->a);
+	p2_timeouts(L->b);
+	if (link_listen(L) != 0) {
+		return; // recorded by ck_
+	}
+	for (int attempt = 0;; attempt++) {
+		g_soft         = true;
+		g_last_fail[0] = 0;
+		int rv         = 0;
+		if (!(atomic_load(&pc_a) >= 1 && atomic_load(&pc_b) >= 1)) {
+			rv = link_dial(L);
+		}
+		if (rv == 0 && !wait_pipes(g_tmo_conn)) {
+			snprintf(g_last_fail, sizeof(g_last_fail), "no-connection");
+			rv = NNG_ETIMEDOUT;
+		}
+		if (rv == 0) {
+			drain(L->b);
+			drain(L->a);
+			rv = link_round(L);
+		}
+		g_soft = false;
+		if (getenv("C20_TRACE") != NULL) {
+			fprintf(stderr, "[link pass2 attempt %d] rv=%d last=%s pipes=%d/%d\n", attempt, rv, g_last_fail,
+			    atomic_load(&pc_a), atomic_load(&pc_b));
+		}
+		if (rv == 0) {
+			return;
+		}
+		if (rv < 0 || !p2_more(attempt)) {
+			if (rv > 0) {
+				note_wedged("%s", g_last_fail[0] ? g_last_fail : "round");
+			}
+			return;
+		}
+	}
+}
+
+static void
+link_close(c20_link *L)
+{
+	close_sock(L->a);
+	close_sock(L->b);
+	if (L->t == VF_T_IPC) {
+		unlink(L->lurl + 6);
+	}
+}
+
 // unarmed inproc connection; b listens, a dials
 static void
 connect_inproc(nng_socket a, nng_socket b, const char *url)
@@ -824,17 +1302,79 @@ connect_inproc(nng_socket a, nng_socket b, const char *url)
 	}
 }
 
-static bool
-two_way(int kind)
+// unarmed: a link that is already connected
+static void
+link_open_connected(c20_link *L, int kind, int t)
 {
-	return kind == X_PAIR0 || kind == X_PAIR1 || kind == X_REQREP ||
-	    kind == X_SURVEY || kind == X_BUS || kind == X_POLY;
+	int port = 0;
+	link_open(L, kind, t, false);
+	SETUP(nng_listen, L->b, L->lurl, &L->l, 0);
+	L->have_l = L->listening = true;
+	snprintf(L->durl, sizeof(L->durl), "%s", L->lurl);
+	if (link_ip(L)) {
+		SETUP(nng_listener_get_int, L->l, NNG_OPT_BOUND_PORT, &port);
+		if (t == VF_T_WS) {
+			snprintf(L->durl, sizeof(L->durl), "ws://127.0.0.1:%d/c20", port);
+		} else {
+			snprintf(L->durl, sizeof(L->durl), "tcp://127.0.0.1:%d", port);
+			snprintf(L->lurl, sizeof(L->lurl), "%s", L->durl);
+		}
+	}
+	SETUP(nng_dial, L->a, L->durl, &L->d, 0);
+	L->dialed = true;
+	if (!wait_pipes(5000)) {
+		child_harness_fail("setup: no connection on %s", L->durl);
+	}
+}
+
+// pass 2 for programs that keep no link: the same two sockets must still be
+// able to talk (over their old connection, or a new inproc one)
+static void
+pair_pass2(nng_socket a, nng_socket b, int kind)
+{
+	p2_timeouts(a);
+	p2_timeouts(b);
+	bool extra = false;
+	for (int attempt = 0;; attempt++) {
+		g_soft         = true;
+		g_last_fail[0] = 0;
+		int rv         = 0;
+		if (!wait_pipes(attempt == 0 ? 300 : g_tmo_conn) && !extra) {
+			g_soft = false;
+			if (CK(0, nng_listen, b, "inproc://c20-p2", NULL, 0) != 0 ||
+			    CK(0, nng_dial, a, "inproc://c20-p2", NULL, 0) != 0) {
+				return;
+			}
+			extra  = true;
+			g_soft = true;
+		}
+		if (!wait_pipes(g_tmo_conn)) {
+			snprintf(g_last_fail, sizeof(g_last_fail), "no-connection");
+			rv = NNG_ETIMEDOUT;
+		}
+		if (rv == 0) {
+			drain(b);
+			drain(a);
+			rv = round_trip(kind, a, b, 40, 40);
+		}
+		g_soft = false;
+		if (rv == 0) {
+			return;
+		}
+		if (rv < 0 || !p2_more(attempt)) {
+			if (rv > 0) {
+				note_wedged("%s", g_last_fail[0] ? g_last_fail : "round");
+			}
+			return;
+		}
+	}
 }
 
 // ======================================================================
 // programs.  Each runs after nng_init; it arms the failpoint itself (so
-// that the unarmed setup is not enumerated again and again), closes every
-// object it created on every path, and returns.  nng_fini follows.
+// that the unarmed setup is not enumerated again and again), runs pass 2
+// when the failure fired, closes every object it created on every path,
+// and returns.  nng_fini follows.
 // ======================================================================
 static void
 prog_init(const parg *pa)
@@ -851,11 +1391,22 @@ prog_open(const parg *pa)
 	bool digit = p->name[strlen(p->name) - 1] >= '0' && p->name[strlen(p->name) - 1] <= '9';
 	snprintf(name, sizeof(name), "nng_%s%s_open%s", p->name, digit ? "" : "0", pa->b ? "_raw" : "");
 	arm();
-	note_call(name);
-	if (ck_(name, 0, (pa->b ? p->open_raw : p->open)(&s)) != 0) {
-		return;
+	for (;;) {
+		note_call(name);
+		if (ck_(name, 0, (pa->b ? p->open_raw : p->open)(&s)) == 0) {
+			int          id;
+			nng_duration d;
+			(void) CK(0, nng_socket_set_ms, s, NNG_OPT_RECVTIMEO, 100);
+			(void) CK(0, nng_socket_get_ms, s, NNG_OPT_RECVTIMEO, &d);
+			id = nng_socket_id(s);
+			close_sock(s);
+			(void) id;
+		}
+		if (!want_pass2()) {
+			break;
+		}
+		begin_pass2(); // opening the same protocol again must work
 	}
-	close_sock(s);
 }
 
 static void
@@ -864,8 +1415,14 @@ prog_open_poly(const parg *pa)
 	nng_socket s = NNG_SOCKET_INITIALIZER;
 	(void) pa;
 	arm();
-	if (CK(0, nng_pair1_open_poly, &s) == 0) {
-		close_sock(s);
+	for (;;) {
+		if (CK(0, nng_pair1_open_poly, &s) == 0) {
+			close_sock(s);
+		}
+		if (!want_pass2()) {
+			break;
+		}
+		begin_pass2();
 	}
 }
 
@@ -875,149 +1432,61 @@ prog_ctx(const parg *pa)
 {
 	const vf_proto *p = &vf_protos[pa->a];
 	nng_socket      s;
-	nng_ctx         c = NNG_CTX_INITIALIZER, c2 = NNG_CTX_INITIALIZER;
 	nng_duration    d;
 	SETUP(p->open, &s);
 	arm();
-	if (CK(0, nng_ctx_open, &c, s) != 0) {
-		goto out;
-	}
-	(void) CK(0, nng_ctx_open, &c2, s);
-	(void) CK(0, nng_ctx_set_ms, c, NNG_OPT_RECVTIMEO, 100);
-	(void) CK(0, nng_ctx_get_ms, c, NNG_OPT_RECVTIMEO, &d);
-	if (!strcmp(p->name, "sub")) {
-		(void) CK(0, nng_sub0_ctx_subscribe, c, "ab", 2);
-		(void) CK(0, nng_sub0_ctx_subscribe, c, "abc", 3);
-		(void) CK(0, nng_sub0_ctx_subscribe, c, "b", 1);
-		(void) nng_sub0_ctx_unsubscribe(c, "ab", 2); // ENOENT if the subscribe failed
-	}
-	if (!strcmp(p->name, "req")) {
-		(void) CK(0, nng_ctx_set_ms, c, NNG_OPT_REQ_RESENDTIME, 1000);
-	}
-	if (!strcmp(p->name, "surveyor")) {
-		(void) CK(0, nng_ctx_set_ms, c, NNG_OPT_SURVEYOR_SURVEYTIME, 500);
-	}
-out:
-	if (nng_ctx_id(c) > 0) {
-		(void) CK(0, nng_ctx_close, c);
-	}
-	if (nng_ctx_id(c2) > 0) {
-		(void) CK(0, nng_ctx_close, c2);
+	for (;;) {
+		nng_ctx c = NNG_CTX_INITIALIZER, c2 = NNG_CTX_INITIALIZER;
+		if (CK(0, nng_ctx_open, &c, s) == 0) {
+			(void) CK(0, nng_ctx_open, &c2, s);
+			(void) CK(0, nng_ctx_set_ms, c, NNG_OPT_RECVTIMEO, 100);
+			(void) CK(0, nng_ctx_get_ms, c, NNG_OPT_RECVTIMEO, &d);
+			if (!strcmp(p->name, "sub")) {
+				int r1 = CK(0, nng_sub0_ctx_subscribe, c, "ab", 2);
+				(void) CK(0, nng_sub0_ctx_subscribe, c, "abc", 3);
+				(void) CK(0, nng_sub0_ctx_subscribe, c, "b", 1);
+				if (r1 == 0) {
+					(void) CK(0, nng_sub0_ctx_unsubscribe, c, "ab", 2);
+				}
+			}
+			if (!strcmp(p->name, "req")) {
+				(void) CK(0, nng_ctx_set_ms, c, NNG_OPT_REQ_RESENDTIME, 1000);
+			}
+			if (!strcmp(p->name, "surveyor")) {
+				(void) CK(0, nng_ctx_set_ms, c, NNG_OPT_SURVEYOR_SURVEYTIME, 500);
+			}
+		}
+		if (nng_ctx_id(c) > 0) {
+			(void) CK(0, nng_ctx_close, c);
+		}
+		if (nng_ctx_id(c2) > 0) {
+			(void) CK(0, nng_ctx_close, c2);
+		}
+		if (!want_pass2()) {
+			break;
+		}
+		begin_pass2(); // the same socket must give working contexts now
 	}
 	close_sock(s);
 }
 
-// listen + dial + one message each way over one transport (pair0)
+// listen + dial + one message each way over one transport
 static void
 prog_tran(const parg *pa)
 {
-	nng_socket   a, b;
-	nng_listener l  = NNG_LISTENER_INITIALIZER;
-	nng_listener l2 = NNG_LISTENER_INITIALIZER;
-	nng_dialer   d  = NNG_DIALER_INITIALIZER;
-	char         url[128], durl[160];
-	int          fds[2] = { -1, -1 };
-	int          t      = pa->a;
-	open_pair_of(pa->b ? X_REQREP : X_PAIR0, &a, &b, false, false);
-	switch (t) {
-	case VF_T_INPROC:
-		snprintf(url, sizeof(url), "inproc://c20");
-		break;
-	case VF_T_IPC:
-		snprintf(url, sizeof(url), "ipc:///tmp/c20-%d.sock", (int) getpid());
-		break;
-	case VF_T_TCP:
-		snprintf(url, sizeof(url), "tcp://127.0.0.1:0");
-		break;
-	case VF_T_WS:
-		snprintf(url, sizeof(url), "ws://127.0.0.1:0/c20");
-		break;
-	case VF_T_N:
-		snprintf(url, sizeof(url), "udp://127.0.0.1:0");
-		break;
-	default:
-		snprintf(url, sizeof(url), "socket://");
-		break;
-	}
+	c20_link L;
+	link_open(&L, pa->b ? X_REQREP : X_PAIR0, pa->a, false);
+	L.byname = pa->s;
+	L.len_ba = pa->a == VF_T_INPROC ? 300 : 20000;
 	arm();
-	if (t == VF_T_SOCKFD) {
-		if (CK(0, nng_socket_pair, fds) != 0) {
-			goto out;
-		}
-		if (CK(0, nng_listener_create, &l, b, url) != 0 ||
-		    CK(0, nng_listener_create, &l2, a, url) != 0 ||
-		    CK(0, nng_listener_start, l, 0) != 0 ||
-		    CK(0, nng_listener_start, l2, 0) != 0) {
-			goto out;
-		}
-		if (CK(0, nng_listener_set_int, l, NNG_OPT_SOCKET_FD, fds[0]) != 0) {
-			goto out;
-		}
-		fds[0] = -1;
-		if (CK(0, nng_listener_set_int, l2, NNG_OPT_SOCKET_FD, fds[1]) != 0) {
-			goto out;
-		}
-		fds[1] = -1;
-	} else {
-		if (CK(0, nng_listen, b, url, &l, 0) != 0) {
-			goto out;
-		}
-		snprintf(durl, sizeof(durl), "%s", url);
-		if (t == VF_T_TCP || t == VF_T_WS || t == VF_T_N) {
-			int port = 0;
-			if (CK(0, nng_listener_get_int, l, NNG_OPT_BOUND_PORT, &port) != 0) {
-				goto out;
-			}
-			if (t == VF_T_N) {
-				snprintf(durl, sizeof(durl), "udp://127.0.0.1:%d", port);
-			} else if (pa->s != NULL) { // by name: goes through the resolver
-				snprintf(durl, sizeof(durl), "tcp://%s:%d", pa->s, port);
-			} else if (t == VF_T_TCP) {
-				snprintf(durl, sizeof(durl), "tcp://127.0.0.1:%d", port);
-			} else {
-				snprintf(durl, sizeof(durl), "ws://127.0.0.1:%d/c20", port);
-			}
-		}
-		if (CK(A_CONN | A_TMO | A_PEER, nng_dial, a, durl, &d, 0) != 0) {
-			goto out;
-		}
+	if (link_connect(&L) == 0) {
+		(void) link_round(&L);
 	}
-	if (!wait_pipes(g_tmo_conn)) {
-		note_loss("no-connection");
-		goto out;
+	if (want_pass2()) {
+		begin_pass2();
+		link_pass2(&L);
 	}
-	if (xchg(a, b, 64, 1) != 0) {
-		goto out;
-	}
-	(void) xchg(b, a, t == VF_T_INPROC ? 300 : 20000, 2);
-out:
-	if (fds[0] >= 0) {
-		close(fds[0]);
-	}
-	if (fds[1] >= 0) {
-		close(fds[1]);
-	}
-	close_sock(a);
-	close_sock(b);
-	if (t == VF_T_IPC) {
-		unlink(url + 6);
-	}
-}
-
-// one exchange per protocol pair over an established inproc connection
-static void
-prog_xchg(const parg *pa)
-{
-	nng_socket a, b;
-	int        kind = pa->a;
-	open_pair_of(kind, &a, &b, false, false);
-	connect_inproc(a, b, "inproc://c20");
-	arm();
-	if (xchg(a, b, 100, 3) == 0 && two_way(kind)) {
-		(void) xchg(b, a, 100, 4);
-	}
-	close_sock(a);
-	close_sock(b);
+	link_close(&L);
 }
 
 // connection set-up (protocol pipe start on both sides), armed; pa->b: the
@@ -1025,71 +1494,109 @@ prog_xchg(const parg *pa)
 static void
 prog_conn(const parg *pa)
 {
-	nng_socket a, b;
-	int        kind = pa->a;
-	open_pair_of(kind, &a, &b, false, pa->b != 0);
+	c20_link L;
+	link_open(&L, pa->a, VF_T_INPROC, pa->b != 0);
+	L.len_ab = L.len_ba = 48;
 	arm();
-	if (CK(0, nng_listen, b, "inproc://c20", NULL, 0) == 0 &&
-	    CK(A_CONN | A_TMO, nng_dial, a, "inproc://c20", NULL, 0) == 0) {
-		if (!wait_pipes(g_tmo_conn)) {
-			note_loss("no-connection");
-		} else if (!pa->b) {
-			if (xchg(a, b, 48, 10) == 0 && two_way(kind)) {
-				(void) xchg(b, a, 48, 11);
-			}
-		}
+	if (link_connect(&L) == 0) {
+		(void) link_round(&L);
 	}
-	close_sock(a);
-	close_sock(b);
+	if (want_pass2()) {
+		begin_pass2();
+		link_pass2(&L);
+	}
+	link_close(&L);
+}
+
+// one exchange per protocol pair over an established inproc connection
+static void
+prog_xchg(const parg *pa)
+{
+	c20_link L;
+	link_open_connected(&L, pa->a, VF_T_INPROC);
+	L.len_ab = L.len_ba = 100;
+	arm();
+	(void) link_round(&L);
+	if (want_pass2()) {
+		begin_pass2();
+		link_pass2(&L);
+	}
+	link_close(&L);
 }
 
 // req/rep and survey through contexts
+static int
+ctx_round(nng_ctx ca, nng_ctx cb)
+{
+	nng_msg *m = NULL, *r = NULL;
+	uint32_t tag = ++g_tag;
+	int      rv;
+	if ((rv = msg_make(&m, 16, tag)) != 0) {
+		return rv;
+	}
+	if ((rv = CK(A_TMO | A_CONN, nng_ctx_sendmsg, ca, m, 0)) != 0) {
+		nng_msg_free(m);
+		return rv;
+	}
+	if ((rv = recv_tagged(recv_ctx, &cb, 16, tag, &r)) != 0) {
+		return rv;
+	}
+	if ((rv = CK(A_TMO | A_CONN, nng_ctx_sendmsg, cb, r, 0)) != 0) {
+		nng_msg_free(r);
+		return rv;
+	}
+	return recv_tagged(recv_ctx, &ca, 16, tag, NULL);
+}
+
 static void
 prog_ctx_xchg(const parg *pa)
 {
-	nng_socket a, b;
-	nng_ctx    ca = NNG_CTX_INITIALIZER, cb = NNG_CTX_INITIALIZER;
-	nng_msg   *m = NULL, *r = NULL;
-	open_pair_of(pa->a, &a, &b, false, false);
-	connect_inproc(a, b, "inproc://c20");
+	c20_link L;
+	nng_ctx  ca = NNG_CTX_INITIALIZER, cb = NNG_CTX_INITIALIZER;
+	link_open_connected(&L, pa->a, VF_T_INPROC);
 	arm();
-	if (CK(0, nng_ctx_open, &ca, a) != 0 || CK(0, nng_ctx_open, &cb, b) != 0) {
-		goto out;
-	}
-	(void) CK(0, nng_ctx_set_ms, ca, NNG_OPT_RECVTIMEO, g_tmo_io);
-	(void) CK(0, nng_ctx_set_ms, cb, NNG_OPT_RECVTIMEO, g_tmo_io);
-	(void) CK(0, nng_ctx_set_ms, ca, NNG_OPT_SENDTIMEO, g_tmo_io);
-	(void) CK(0, nng_ctx_set_ms, cb, NNG_OPT_SENDTIMEO, g_tmo_io);
-	if (CK(0, nng_msg_alloc, &m, 8) != 0) {
-		goto out;
-	}
-	if (CK(A_TMO | A_CONN, nng_ctx_sendmsg, ca, m, 0) != 0) {
-		nng_msg_free(m);
-		goto out;
-	}
-	if (CK(A_TMO | A_CONN, nng_ctx_recvmsg, cb, &r, 0) != 0) {
-		goto out;
-	}
-	if (CK(A_TMO | A_CONN, nng_ctx_sendmsg, cb, r, 0) != 0) {
-		nng_msg_free(r);
-		goto out;
-	}
-	r = NULL;
-	if (CK(A_TMO | A_CONN, nng_ctx_recvmsg, ca, &r, 0) == 0) {
-		if (nng_msg_len(r) != 8) {
-			note_violation("bad-data:ctx reply len %zu", nng_msg_len(r));
+	for (;;) {
+		int rv = 0;
+		if (nng_ctx_id(ca) <= 0) {
+			rv = CK(0, nng_ctx_open, &ca, L.a);
 		}
-		nng_msg_free(r);
+		if (rv == 0 && nng_ctx_id(cb) <= 0) {
+			rv = CK(0, nng_ctx_open, &cb, L.b);
+		}
+		if (rv == 0) {
+			(void) CK(0, nng_ctx_set_ms, ca, NNG_OPT_RECVTIMEO, g_tmo_io);
+			(void) CK(0, nng_ctx_set_ms, cb, NNG_OPT_RECVTIMEO, g_tmo_io);
+			(void) CK(0, nng_ctx_set_ms, ca, NNG_OPT_SENDTIMEO, g_tmo_io);
+			(void) CK(0, nng_ctx_set_ms, cb, NNG_OPT_SENDTIMEO, g_tmo_io);
+			if (g_pass == 1) {
+				(void) ctx_round(ca, cb);
+			} else {
+				for (int attempt = 0;; attempt++) {
+					g_soft = true;
+					drain_ctx(cb);
+					rv     = wait_pipes(g_tmo_conn) ? ctx_round(ca, cb) : NNG_ETIMEDOUT;
+					g_soft = false;
+					if (rv <= 0 || !p2_more(attempt)) {
+						if (rv > 0) {
+							note_wedged("%s", g_last_fail[0] ? g_last_fail : "no-connection");
+						}
+						break;
+					}
+				}
+			}
+		}
+		if (!want_pass2()) {
+			break;
+		}
+		begin_pass2();
 	}
-out:
 	if (nng_ctx_id(ca) > 0) {
 		(void) CK(0, nng_ctx_close, ca);
 	}
 	if (nng_ctx_id(cb) > 0) {
 		(void) CK(0, nng_ctx_close, cb);
 	}
-	close_sock(a);
-	close_sock(b);
+	link_close(&L);
 }
 
 // socket options
@@ -1115,41 +1622,54 @@ prog_opts(const parg *pa)
 			(void) ck_(#fn, 0, rv);                         \
 		}                                                       \
 	} while (0)
-	OPT(nng_socket_set_int, s, NNG_OPT_SENDBUF, 4);
-	OPT(nng_socket_set_int, s, NNG_OPT_RECVBUF, 4);
-	OPT(nng_socket_set_int, s, NNG_OPT_SENDBUF, 64);
-	OPT(nng_socket_set_int, s, NNG_OPT_RECVBUF, 64);
-	OPT(nng_socket_set_int, s, NNG_OPT_SENDBUF, 1);
-	OPT(nng_socket_set_int, s, NNG_OPT_RECVBUF, 1);
-	OPT(nng_socket_get_int, s, NNG_OPT_SENDBUF, &iv);
-	OPT(nng_socket_get_int, s, NNG_OPT_RECVBUF, &iv);
-	OPT(nng_socket_set_int, s, NNG_OPT_MAXTTL, 4);
-	OPT(nng_socket_get_int, s, NNG_OPT_MAXTTL, &iv);
-	OPT(nng_socket_set_ms, s, NNG_OPT_SENDTIMEO, 100);
-	OPT(nng_socket_set_ms, s, NNG_OPT_RECVTIMEO, 100);
-	OPT(nng_socket_get_ms, s, NNG_OPT_RECVTIMEO, &dv);
-	OPT(nng_socket_set_ms, s, NNG_OPT_RECONNMINT, 10);
-	OPT(nng_socket_set_ms, s, NNG_OPT_RECONNMAXT, 100);
-	OPT(nng_socket_set_size, s, NNG_OPT_RECVMAXSZ, 4096);
-	OPT(nng_socket_get_size, s, NNG_OPT_RECVMAXSZ, &zv);
-	OPT(nng_socket_raw, s, &bv);
-	OPT(nng_socket_proto_name, s, &nm);
-	OPT(nng_socket_peer_name, s, &nm);
-	OPT(nng_socket_get_recv_poll_fd, s, &iv);
-	OPT(nng_socket_get_send_poll_fd, s, &iv);
-	if (!strcmp(p->name, "sub") && !pa->b) {
-		OPT(nng_sub0_socket_subscribe, s, "abc", 3);
-		OPT(nng_sub0_socket_subscribe, s, "abd", 3);
-		OPT(nng_sub0_socket_subscribe, s, "", 0);
-		(void) nng_sub0_socket_unsubscribe(s, "abc", 3);
-		OPT(nng_socket_set_bool, s, NNG_OPT_SUB_PREFNEW, false);
-	}
-	if (!strcmp(p->name, "req") && !pa->b) {
-		OPT(nng_socket_set_ms, s, NNG_OPT_REQ_RESENDTIME, 500);
-		OPT(nng_socket_set_ms, s, NNG_OPT_REQ_RESENDTICK, 50);
-	}
-	if (!strcmp(p->name, "surveyor") && !pa->b) {
-		OPT(nng_socket_set_ms, s, NNG_OPT_SURVEYOR_SURVEYTIME, 300);
+	for (;;) {
+		OPT(nng_socket_set_int, s, NNG_OPT_SENDBUF, 4);
+		OPT(nng_socket_set_int, s, NNG_OPT_RECVBUF, 4);
+		OPT(nng_socket_set_int, s, NNG_OPT_SENDBUF, 64);
+		OPT(nng_socket_set_int, s, NNG_OPT_RECVBUF, 64);
+		OPT(nng_socket_set_int, s, NNG_OPT_SENDBUF, 1);
+		OPT(nng_socket_set_int, s, NNG_OPT_RECVBUF, 3);
+		iv = -1;
+		OPT(nng_socket_get_int, s, NNG_OPT_RECVBUF, &iv);
+		if (g_pass == 2 && rv == 0 && iv != 3) {
+			note_wedged("recv-buffer reads back %d after it was set to 3", iv);
+		}
+		OPT(nng_socket_get_int, s, NNG_OPT_SENDBUF, &iv);
+		OPT(nng_socket_set_int, s, NNG_OPT_MAXTTL, 4);
+		OPT(nng_socket_get_int, s, NNG_OPT_MAXTTL, &iv);
+		OPT(nng_socket_set_ms, s, NNG_OPT_SENDTIMEO, 100);
+		OPT(nng_socket_set_ms, s, NNG_OPT_RECVTIMEO, 100);
+		OPT(nng_socket_get_ms, s, NNG_OPT_RECVTIMEO, &dv);
+		OPT(nng_socket_set_ms, s, NNG_OPT_RECONNMINT, 10);
+		OPT(nng_socket_set_ms, s, NNG_OPT_RECONNMAXT, 100);
+		OPT(nng_socket_set_size, s, NNG_OPT_RECVMAXSZ, 4096);
+		OPT(nng_socket_get_size, s, NNG_OPT_RECVMAXSZ, &zv);
+		OPT(nng_socket_raw, s, &bv);
+		OPT(nng_socket_proto_name, s, &nm);
+		OPT(nng_socket_peer_name, s, &nm);
+		OPT(nng_socket_get_recv_poll_fd, s, &iv);
+		OPT(nng_socket_get_send_poll_fd, s, &iv);
+		if (!strcmp(p->name, "sub") && !pa->b) {
+			OPT(nng_sub0_socket_subscribe, s, "abc", 3);
+			int r1 = rv;
+			OPT(nng_sub0_socket_subscribe, s, "abd", 3);
+			OPT(nng_sub0_socket_subscribe, s, "", 0);
+			if (r1 == 0) {
+				OPT(nng_sub0_socket_unsubscribe, s, "abc", 3);
+			}
+			OPT(nng_socket_set_bool, s, NNG_OPT_SUB_PREFNEW, false);
+		}
+		if (!strcmp(p->name, "req") && !pa->b) {
+			OPT(nng_socket_set_ms, s, NNG_OPT_REQ_RESENDTIME, 500);
+			OPT(nng_socket_set_ms, s, NNG_OPT_REQ_RESENDTICK, 50);
+		}
+		if (!strcmp(p->name, "surveyor") && !pa->b) {
+			OPT(nng_socket_set_ms, s, NNG_OPT_SURVEYOR_SURVEYTIME, 300);
+		}
+		if (!want_pass2()) {
+			break;
+		}
+		begin_pass2(); // every option can be set on the same socket now
 	}
 	close_sock(s);
 }
@@ -1158,25 +1678,32 @@ prog_opts(const parg *pa)
 static void
 prog_resize(const parg *pa)
 {
-	nng_socket a, b;
-	nng_msg   *m;
+	c20_link L;
+	nng_msg *m;
 	(void) pa;
-	open_pair_of(X_PAIR0, &a, &b, false, false);
-	SETUP(nng_socket_set_int, a, NNG_OPT_SENDBUF, 2);
-	SETUP(nng_socket_set_int, b, NNG_OPT_RECVBUF, 2);
-	connect_inproc(a, b, "inproc://c20");
+	link_open(&L, X_PAIR0, VF_T_INPROC, false);
+	SETUP(nng_socket_set_int, L.a, NNG_OPT_SENDBUF, 2);
+	SETUP(nng_socket_set_int, L.b, NNG_OPT_RECVBUF, 2);
+	SETUP(nng_listen, L.b, L.lurl, &L.l, 0);
+	SETUP(nng_dial, L.a, L.lurl, &L.d, 0);
+	snprintf(L.durl, sizeof(L.durl), "%s", L.lurl);
+	L.have_l = L.listening = L.dialed = true;
+	if (!wait_pipes(5000)) {
+		child_harness_fail("setup: no inproc connection");
+	}
 	for (int i = 0; i < 3; i++) {
 		SETUP(nng_msg_alloc, &m, 4);
 		memcpy(nng_msg_body(m), &i, 4);
-		SETUP(nng_sendmsg, a, m, 0);
+		SETUP(nng_sendmsg, L.a, m, 0);
 	}
 	arm();
-	(void) CK(0, nng_socket_set_int, b, NNG_OPT_RECVBUF, 8);
-	(void) CK(0, nng_socket_set_int, a, NNG_OPT_SENDBUF, 8);
-	(void) CK(0, nng_socket_set_int, b, NNG_OPT_RECVBUF, 16);
+	(void) CK(0, nng_socket_set_int, L.b, NNG_OPT_RECVBUF, 8);
+	(void) CK(0, nng_socket_set_int, L.a, NNG_OPT_SENDBUF, 8);
+	(void) CK(0, nng_socket_set_int, L.b, NNG_OPT_RECVBUF, 16);
+	// a failed resize must leave the queued messages alone
 	for (int i = 0; i < 3; i++) {
 		m = NULL;
-		if (CK(A_TMO, nng_recvmsg, b, &m, 0) != 0) {
+		if (CK(A_TMO, nng_recvmsg, L.b, &m, 0) != 0) {
 			break;
 		}
 		int got = -1;
@@ -1188,8 +1715,13 @@ prog_resize(const parg *pa)
 		}
 		nng_msg_free(m);
 	}
-	close_sock(a);
-	close_sock(b);
+	if (want_pass2()) {
+		begin_pass2();
+		(void) CK(0, nng_socket_set_int, L.b, NNG_OPT_RECVBUF, 16);
+		(void) CK(0, nng_socket_set_int, L.a, NNG_OPT_SENDBUF, 8);
+		link_pass2(&L);
+	}
+	link_close(&L);
 }
 
 // device: e1 <-> [d1 | d2] <-> e2
@@ -1199,7 +1731,7 @@ prog_device(const parg *pa)
 	nng_socket e1, d1, d2, e2;
 	nng_aio   *aio = NULL;
 	int        kind = pa->a; // X_PAIR0 or X_REQREP
-	_Atomic int dummy1, dummy2;
+	bool       running = false;
 	if (kind == X_REQREP) {
 		SETUP(nng_req0_open, &e1);
 		SETUP(nng_rep0_open_raw, &d1);
@@ -1219,22 +1751,53 @@ prog_device(const parg *pa)
 	watch_pipes(e2, &pc_a);
 	watch_pipes(d2, &pc_b);
 	connect_inproc(d2, e2, "inproc://c20-dev2");
-	(void) dummy1;
-	(void) dummy2;
 	arm();
-	if (CK(0, nng_aio_alloc, &aio, NULL, NULL) != 0) {
-		goto out;
+	for (;;) {
+		if (aio == NULL && CK(0, nng_aio_alloc, &aio, NULL, NULL) != 0) {
+			aio = NULL;
+		}
+		if (aio != NULL && !running) {
+			note_call("nng_device_aio");
+			nng_device_aio(aio, d1, d2);
+			running = true;
+		}
+		if (running) {
+			if (g_pass == 1) {
+				(void) round_trip(kind == X_REQREP ? X_REQREP : X_PIPELINE, e1, e2, 80, 80);
+			} else {
+				p2_timeouts(e1);
+				p2_timeouts(e2);
+				for (int attempt = 0;; attempt++) {
+					g_soft = true;
+					drain(e2);
+					int rv = round_trip(kind == X_REQREP ? X_REQREP : X_PIPELINE, e1, e2, 80, 80);
+					g_soft = false;
+					if (rv <= 0 || !p2_more(attempt)) {
+						if (rv > 0) {
+							note_wedged("device:%s", g_last_fail);
+						}
+						break;
+					}
+				}
+			}
+		}
+		if (!want_pass2()) {
+			break;
+		}
+		if (running && !nng_aio_busy(aio)) {
+			// the device could not start: it may be started again
+			(void) ck_("nng_device_aio", 0, (int) nng_aio_result(aio));
+			running = false;
+		}
+		begin_pass2();
 	}
-	note_call("nng_device_aio");
-	nng_device_aio(aio, d1, d2);
-	if (xchg(e1, e2, 80, 5) == 0 && kind == X_REQREP) {
-		(void) xchg(e2, e1, 80, 6);
-	}
-	note_call("nng_aio_stop");
-	nng_aio_stop(aio);
-	(void) ck_("nng_device_aio", A_CANCEL, (int) nng_aio_result(aio));
-out:
 	if (aio != NULL) {
+		settle();
+		note_call("nng_aio_stop");
+		nng_aio_stop(aio);
+		if (running) {
+			(void) ck_("nng_device_aio", A_CANCEL, (int) nng_aio_result(aio));
+		}
 		note_call("nng_aio_free");
 		nng_aio_free(aio);
 	}
@@ -1264,28 +1827,35 @@ prog_url(const parg *pa)
 	};
 	(void) pa;
 	arm();
-	for (unsigned i = 0; i < sizeof(urls) / sizeof(urls[0]); i++) {
-		nng_url *u = NULL, *c = NULL;
-		char     buf[512];
-		if (CK(0, nng_url_parse, &u, urls[i]) != 0) {
-			continue;
-		}
-		note_call("nng_url_sprintf");
-		(void) nng_url_sprintf(buf, sizeof(buf), u);
-		(void) nng_url_hostname(u);
-		(void) nng_url_path(u);
-		if (CK(0, nng_url_clone, &c, u) == 0) {
-			char buf2[512];
-			(void) nng_url_sprintf(buf2, sizeof(buf2), c);
-			if (strcmp(buf, buf2) != 0) {
-				note_violation("bad-data:url clone differs");
+	for (;;) {
+		for (unsigned i = 0; i < sizeof(urls) / sizeof(urls[0]); i++) {
+			nng_url *u = NULL, *c = NULL;
+			char     buf[512];
+			if (CK(0, nng_url_parse, &u, urls[i]) != 0) {
+				continue;
 			}
-			nng_url_free(c);
+			note_call("nng_url_sprintf");
+			(void) nng_url_sprintf(buf, sizeof(buf), u);
+			(void) nng_url_hostname(u);
+			(void) nng_url_path(u);
+			if (CK(0, nng_url_clone, &c, u) == 0) {
+				char buf2[512];
+				(void) nng_url_sprintf(buf2, sizeof(buf2), c);
+				if (strcmp(buf, buf2) != 0) {
+					note_violation("bad-data:url clone differs");
+				}
+				nng_url_free(c);
+			}
+			nng_url_free(u);
 		}
-		nng_url_free(u);
+		if (!want_pass2()) {
+			break;
+		}
+		begin_pass2();
 	}
 }
 
+// A failed edit must leave the message as it was; later edits work.
 static void
 prog_msg(const parg *pa)
 {
@@ -1294,76 +1864,128 @@ prog_msg(const parg *pa)
 	(void) pa;
 	vf_fill(buf, sizeof(buf), 9);
 	arm();
-	if (CK(0, nng_msg_alloc, &m, 10) != 0) {
-		return;
-	}
-	(void) CK(0, nng_msg_append, m, buf, 100);
-	(void) CK(0, nng_msg_insert, m, buf, 50);
-	(void) CK(0, nng_msg_append_u32, m, 7);
-	(void) CK(0, nng_msg_insert_u64, m, 8);
-	(void) CK(0, nng_msg_header_append, m, buf, 8);
-	(void) CK(0, nng_msg_header_insert_u32, m, 3);
-	(void) CK(0, nng_msg_realloc, m, 4000);
-	(void) CK(0, nng_msg_reserve, m, 9000);
-	(void) CK(0, nng_msg_append, m, buf, 300);
-	(void) CK(0, nng_msg_insert, m, buf, 300);
-	(void) CK(0, nng_msg_realloc, m, 20);
-	size_t len = nng_msg_len(m), hlen = nng_msg_header_len(m);
-	if (CK(0, nng_msg_dup, &d, m) == 0) {
-		if (nng_msg_len(d) != len || nng_msg_header_len(d) != hlen ||
-		    memcmp(nng_msg_body(d), nng_msg_body(m), len) != 0) {
-			note_violation("bad-data:msg dup differs");
+	for (;;) {
+		size_t len = 10, hlen = 0;
+		if (CK(0, nng_msg_alloc, &m, 10) == 0) {
+#define EDIT(grow, hgrow, fn, ...)                         \
+	do {                                               \
+		if (CK(0, fn, __VA_ARGS__) == 0) {         \
+			len += (grow);                     \
+			hlen += (hgrow);                   \
+		}                                          \
+		if (nng_msg_len(m) != len || nng_msg_header_len(m) != hlen) { \
+			note_violation("bad-data:%s left len %zu/%zu, expected %zu/%zu", #fn, \
+			    nng_msg_len(m), nng_msg_header_len(m), len, hlen); \
+			len  = nng_msg_len(m);             \
+			hlen = nng_msg_header_len(m);      \
+		}                                          \
+	} while (0)
+			EDIT(100, 0, nng_msg_append, m, buf, 100);
+			EDIT(50, 0, nng_msg_insert, m, buf, 50);
+			EDIT(4, 0, nng_msg_append_u32, m, 7);
+			EDIT(8, 0, nng_msg_insert_u64, m, 8);
+			EDIT(0, 8, nng_msg_header_append, m, buf, 8);
+			EDIT(0, 4, nng_msg_header_insert_u32, m, 3);
+			if (CK(0, nng_msg_realloc, m, 4000) == 0) {
+				len = 4000;
+			}
+			EDIT(0, 0, nng_msg_reserve, m, 9000);
+			EDIT(300, 0, nng_msg_append, m, buf, 300);
+			EDIT(300, 0, nng_msg_insert, m, buf, 300);
+			if (CK(0, nng_msg_realloc, m, 20) == 0) {
+				len = 20;
+			}
+			EDIT(0, 0, nng_msg_reserve, m, 64);
+			if (CK(0, nng_msg_dup, &d, m) == 0) {
+				if (nng_msg_len(d) != len || nng_msg_header_len(d) != hlen ||
+				    memcmp(nng_msg_body(d), nng_msg_body(m), len) != 0) {
+					note_violation("bad-data:msg dup differs");
+				}
+				(void) CK(0, nng_msg_append, d, buf, 10);
+				nng_msg_free(d);
+			}
+			(void) CK(0, nng_msg_trim, m, 4);
+			(void) CK(0, nng_msg_chop, m, 4);
+			nng_msg_clear(m);
+			(void) CK(0, nng_msg_append, m, buf, 64);
+			nng_msg_free(m);
 		}
-		(void) CK(0, nng_msg_append, d, buf, 10);
-		nng_msg_free(d);
-	}
-	(void) CK(0, nng_msg_trim, m, 4);
-	(void) CK(0, nng_msg_chop, m, 4);
-	nng_msg_clear(m);
-	(void) CK(0, nng_msg_append, m, buf, 64);
-	nng_msg_free(m);
-	void *p = nng_alloc(100);
-	if (p != NULL) {
-		nng_free(p, 100);
-	}
-	char *s = nng_strdup("hello");
-	if (s != NULL) {
-		nng_strfree(s);
+		void *p = nng_alloc(100);
+		if (p != NULL) {
+			nng_free(p, 100);
+		} else if (g_pass == 2) {
+			note_wedged("nng_alloc=NULL");
+		}
+		char *s = nng_strdup("hello");
+		if (s != NULL) {
+			nng_strfree(s);
+		} else if (g_pass == 2) {
+			note_wedged("nng_strdup=NULL");
+		}
+		if (!want_pass2()) {
+			break;
+		}
+		begin_pass2();
 	}
 }
 
+// A map whose growth failed must keep working: what was stored stays, and
+// more can be stored.
 static void
 prog_idmap(const parg *pa)
 {
 	nng_id_map *map = NULL;
-	uint64_t    id;
-	int         vals[80];
+	uint64_t    id, ids[200];
+	int         vals[200], nset = 0, nalloc = 0;
+	bool        set_ok[80];
+	memset(set_ok, 0, sizeof(set_ok));
 	arm();
 	if (CK(0, nng_id_map_alloc, &map, 1, 100000, pa->a ? NNG_MAP_RANDOM : 0) != 0) {
-		return;
-	}
-	int nset = 0;
-	for (int i = 0; i < 40; i++) {
-		vals[i] = i;
-		if (CK(0, nng_id_set, map, (uint64_t) (i * 7 + 1), &vals[i]) == 0) {
-			nset++;
-		} else {
-			break;
+		if (!want_pass2()) {
+			return;
+		}
+		begin_pass2();
+		if (CK(0, nng_id_map_alloc, &map, 1, 100000, pa->a ? NNG_MAP_RANDOM : 0) != 0) {
+			return;
 		}
 	}
-	for (int i = 0; i < nset; i++) {
-		if (nng_id_get(map, (uint64_t) (i * 7 + 1)) != &vals[i]) {
-			note_violation("bad-data:id map lost entry %d", i);
+	for (;;) {
+		int base = g_pass == 1 ? 0 : 40;
+		for (int i = base; i < base + 40; i++) {
+			vals[i] = i;
+			if (CK(0, nng_id_set, map, (uint64_t) (i * 7 + 1), &vals[i]) == 0) {
+				set_ok[i] = true;
+				nset++;
+			}
+		}
+		for (int i = 0; i < 40; i++) {
+			vals[80 + nalloc] = 80 + nalloc;
+			if (CK(0, nng_id_alloc, map, &id, &vals[80 + nalloc]) == 0) {
+				ids[nalloc] = id;
+				nalloc++;
+			}
+		}
+		for (int i = 0; i < 80; i++) {
+			if (set_ok[i] && nng_id_get(map, (uint64_t) (i * 7 + 1)) != &vals[i]) {
+				note_violation("bad-data:id map lost entry %d", i);
+				break;
+			}
+		}
+		for (int i = 0; i < nalloc; i++) {
+			if (nng_id_get(map, ids[i]) != &vals[80 + i]) {
+				note_violation("bad-data:id map lost allocated id");
+				break;
+			}
+		}
+		if (!want_pass2()) {
 			break;
 		}
+		begin_pass2();
 	}
-	for (int i = 40; i < 80; i++) {
-		if (CK(0, nng_id_alloc, map, &id, &vals[i]) != 0) {
-			break;
+	for (int i = 0; i < 80; i++) {
+		if (set_ok[i]) {
+			(void) CK(0, nng_id_remove, map, (uint64_t) (i * 7 + 1));
 		}
-	}
-	for (int i = 0; i < nset; i++) {
-		(void) nng_id_remove(map, (uint64_t) (i * 7 + 1));
 	}
 	nng_id_map_free(map);
 }
@@ -1378,30 +2000,36 @@ noop_thread(void *arg)
 static void
 prog_aio(const parg *pa)
 {
-	nng_aio    *aio = NULL;
-	nng_mtx    *mx  = NULL;
-	nng_cv     *cv  = NULL;
-	nng_thread *thr = NULL;
 	(void) pa;
 	arm();
-	if (CK(0, nng_aio_alloc, &aio, NULL, NULL) == 0) {
-		note_call("nng_sleep_aio");
-		nng_sleep_aio(5, aio);
-		nng_aio_wait(aio);
-		(void) ck_("nng_sleep_aio", 0, (int) nng_aio_result(aio));
-		nng_aio_free(aio);
-	}
-	if (CK(0, nng_mtx_alloc, &mx) == 0) {
-		if (CK(0, nng_cv_alloc, &cv, mx) == 0) {
-			nng_mtx_lock(mx);
-			nng_cv_wake(cv);
-			nng_mtx_unlock(mx);
-			nng_cv_free(cv);
+	for (;;) {
+		nng_aio    *aio = NULL;
+		nng_mtx    *mx  = NULL;
+		nng_cv     *cv  = NULL;
+		nng_thread *thr = NULL;
+		if (CK(0, nng_aio_alloc, &aio, NULL, NULL) == 0) {
+			note_call("nng_sleep_aio");
+			nng_sleep_aio(5, aio);
+			nng_aio_wait(aio);
+			(void) ck_("nng_sleep_aio", 0, (int) nng_aio_result(aio));
+			nng_aio_free(aio);
 		}
-		nng_mtx_free(mx);
-	}
-	if (CK(0, nng_thread_create, &thr, noop_thread, NULL) == 0) {
-		nng_thread_destroy(thr);
+		if (CK(0, nng_mtx_alloc, &mx) == 0) {
+			if (CK(0, nng_cv_alloc, &cv, mx) == 0) {
+				nng_mtx_lock(mx);
+				nng_cv_wake(cv);
+				nng_mtx_unlock(mx);
+				nng_cv_free(cv);
+			}
+			nng_mtx_free(mx);
+		}
+		if (CK(0, nng_thread_create, &thr, noop_thread, NULL) == 0) {
+			nng_thread_destroy(thr);
+		}
+		if (!want_pass2()) {
+			break;
+		}
+		begin_pass2();
 	}
 }
 
@@ -1413,7 +2041,6 @@ prog_ep(const parg *pa)
 	nng_listener   l = NNG_LISTENER_INITIALIZER;
 	nng_dialer     d = NNG_DIALER_INITIALIZER;
 	const nng_url *u;
-	nng_sockaddr   sa;
 	int            port = 0;
 	size_t         z;
 	char           durl[64];
@@ -1421,62 +2048,95 @@ prog_ep(const parg *pa)
 	open_pair_of(X_PAIR0, &a, &b, false, false);
 	arm();
 	if (CK(0, nng_listener_create, &l, b, "tcp://127.0.0.1:0") != 0) {
-		goto out;
+		goto p2;
 	}
 	(void) CK(0, nng_listener_set_size, l, NNG_OPT_RECVMAXSZ, 100000);
 	(void) CK(0, nng_listener_set_bool, l, NNG_OPT_TCP_NODELAY, true);
 	(void) CK(0, nng_listener_get_size, l, NNG_OPT_RECVMAXSZ, &z);
-	if (CK(0, nng_listener_start, l, 0) != 0) {
-		goto out;
+	if (CK(A_PORT0, nng_listener_start, l, 0) != 0) {
+		goto p2;
 	}
 	(void) CK(0, nng_listener_get_url, l, &u);
 	if (CK(0, nng_listener_get_int, l, NNG_OPT_BOUND_PORT, &port) != 0) {
-		goto out;
+		goto p2;
 	}
 	snprintf(durl, sizeof(durl), "tcp://127.0.0.1:%d", port);
 	if (CK(0, nng_dialer_create, &d, a, durl) != 0) {
-		goto out;
+		goto p2;
 	}
 	(void) CK(0, nng_dialer_set_ms, d, NNG_OPT_RECONNMINT, 10);
 	(void) CK(0, nng_dialer_set_size, d, NNG_OPT_RECVMAXSZ, 100000);
 	(void) CK(0, nng_dialer_set_bool, d, NNG_OPT_TCP_KEEPALIVE, true);
 	(void) CK(0, nng_dialer_get_url, d, &u);
 	if (CK(A_CONN, nng_dialer_start, d, NNG_FLAG_NONBLOCK) != 0) {
-		goto out;
+		goto p2;
 	}
 	if (!wait_pipes(g_tmo_conn)) {
 		note_loss("no-connection");
-		goto out;
+		goto p2;
 	}
-	(void) xchg(a, b, 32, 7);
-	(void) sa;
-	(void) CK(0, nng_dialer_close, d);
-	(void) CK(0, nng_listener_close, l);
-out:
+	(void) xchg(a, b, 32);
+p2:
+	if (want_pass2()) {
+		begin_pass2();
+		pair_pass2(a, b, X_PAIR0);
+	}
+	if (nng_dialer_id(d) > 0) {
+		(void) CK(0, nng_dialer_close, d);
+	}
+	if (nng_listener_id(l) > 0) {
+		(void) CK(0, nng_listener_close, l);
+	}
 	close_sock(a);
 	close_sock(b);
 }
 
 // nng_send / nng_recv (buffer copies)
+static int
+sendrecv_round(c20_link *L)
+{
+	char   buf[64];
+	size_t sz = sizeof(buf);
+	int    rv;
+	if ((rv = CK(A_TMO | A_CONN, nng_send, L->a, "hello world", 12, 0)) != 0 ||
+	    (rv = CK(A_TMO | A_CONN, nng_recv, L->b, buf, &sz, 0)) != 0) {
+		return rv;
+	}
+	if (sz != 12 || memcmp(buf, "hello world", 12) != 0) {
+		note_violation("bad-data:nng_recv size %zu", sz);
+		return -1;
+	}
+	sz = sizeof(buf);
+	(void) CK(A_AGAIN, nng_recv, L->b, buf, &sz, NNG_FLAG_NONBLOCK);
+	return 0;
+}
+
 static void
 prog_sendrecv(const parg *pa)
 {
-	nng_socket a, b;
-	char       buf[64];
-	size_t     sz = sizeof(buf);
+	c20_link L;
 	(void) pa;
-	open_pair_of(X_PAIR0, &a, &b, false, false);
-	connect_inproc(a, b, "inproc://c20");
+	link_open_connected(&L, X_PAIR0, VF_T_INPROC);
 	arm();
-	if (CK(A_TMO | A_CONN, nng_send, a, "hello world", 12, 0) == 0 &&
-	    CK(A_TMO | A_CONN, nng_recv, b, buf, &sz, 0) == 0) {
-		if (sz != 12 || memcmp(buf, "hello world", 12) != 0) {
-			note_violation("bad-data:nng_recv size %zu", sz);
+	(void) sendrecv_round(&L);
+	if (want_pass2()) {
+		begin_pass2();
+		p2_timeouts(L.a);
+		p2_timeouts(L.b);
+		for (int attempt = 0;; attempt++) {
+			g_soft = true;
+			drain(L.b);
+			int rv = wait_pipes(g_tmo_conn) ? sendrecv_round(&L) : NNG_ETIMEDOUT;
+			g_soft = false;
+			if (rv <= 0 || !p2_more(attempt)) {
+				if (rv > 0) {
+					note_wedged("%s", g_last_fail[0] ? g_last_fail : "no-connection");
+				}
+				break;
+			}
 		}
 	}
-	(void) CK(A_AGAIN, nng_recv, b, buf, &sz, NNG_FLAG_NONBLOCK);
-	close_sock(a);
-	close_sock(b);
+	link_close(&L);
 }
 
 static void
@@ -1500,73 +2160,65 @@ walk_stats(const nng_stat *st, int depth, int *n)
 static void
 prog_stats(const parg *pa)
 {
-	nng_socket a, b;
-	nng_stat  *st = NULL;
-	open_pair_of(X_PAIR0, &a, &b, false, false);
-	if (pa->a) {
-		nng_listener l;
-		int          port = 0;
-		char         durl[64];
-		SETUP(nng_listen, b, "tcp://127.0.0.1:0", &l, 0);
-		SETUP(nng_listener_get_int, l, NNG_OPT_BOUND_PORT, &port);
-		snprintf(durl, sizeof(durl), "tcp://127.0.0.1:%d", port);
-		SETUP(nng_dial, a, durl, NULL, 0);
-		if (!wait_pipes(5000)) {
-			child_harness_fail("setup: no tcp connection for stats");
-		}
-	} else {
-		connect_inproc(a, b, "inproc://c20");
-	}
+	c20_link  L;
+	nng_stat *st = NULL;
+	link_open_connected(&L, X_PAIR0, pa->a ? VF_T_TCP : VF_T_INPROC);
 	arm();
-	if (CK(0, nng_stats_get, &st) == 0) {
-		int n = 0;
-		walk_stats(st, 0, &n);
-		if (nng_stat_find_socket(st, a) == NULL || n < 10) {
-			note_violation("bad-data:stats snapshot has %d nodes", n);
+	for (;;) {
+		if (CK(0, nng_stats_get, &st) == 0) {
+			int n = 0;
+			walk_stats(st, 0, &n);
+			if (nng_stat_find_socket(st, L.a) == NULL || n < 10) {
+				note_violation("bad-data:stats snapshot has %d nodes", n);
+			}
+			nng_stats_free(st);
 		}
-		nng_stats_free(st);
+		if (!want_pass2()) {
+			break;
+		}
+		begin_pass2();
 	}
-	close_sock(a);
-	close_sock(b);
+	link_close(&L);
 }
 
 static _Atomic int notify_n[NNG_PIPE_EV_NUM];
 static void
 notify_cb(nng_pipe p, nng_pipe_ev ev, void *arg)
 {
-	(void) arg;
 	atomic_fetch_add(&notify_n[ev], 1);
 	(void) nng_pipe_id(p);
-	if (ev == NNG_PIPE_EV_ADD_POST) {
-		atomic_fetch_add(&pc_a, 1);
-		atomic_fetch_add(&pc_b, 1);
-	}
+	pipe_cb(p, ev, arg);
 }
 
 static void
 prog_notify(const parg *pa)
 {
-	nng_socket a, b;
+	c20_link L;
 	(void) pa;
-	SETUP(nng_pair0_open, &a);
-	SETUP(nng_pair0_open, &b);
-	set_timeouts(a);
-	set_timeouts(b);
-	atomic_store(&pc_a, -1); // both ADD_POST events must arrive
-	atomic_store(&pc_b, -1);
+	memset(&L, 0, sizeof(L));
+	L.kind = X_PAIR0;
+	L.t    = VF_T_INPROC;
+	L.len_ab = L.len_ba = 40;
+	snprintf(L.lurl, sizeof(L.lurl), "inproc://c20");
+	SETUP(nng_pair0_open, &L.a);
+	SETUP(nng_pair0_open, &L.b);
+	set_timeouts(L.a);
+	set_timeouts(L.b);
+	atomic_store(&pc_a, 0);
+	atomic_store(&pc_b, 0);
 	arm();
 	for (int ev = NNG_PIPE_EV_ADD_PRE; ev <= NNG_PIPE_EV_REM_POST; ev++) {
-		(void) CK(0, nng_pipe_notify, a, (nng_pipe_ev) ev, notify_cb, NULL);
-		(void) CK(0, nng_pipe_notify, b, (nng_pipe_ev) ev, notify_cb, NULL);
+		(void) CK(0, nng_pipe_notify, L.a, (nng_pipe_ev) ev, notify_cb, &pc_a);
+		(void) CK(0, nng_pipe_notify, L.b, (nng_pipe_ev) ev, notify_cb, &pc_b);
 	}
-	if (CK(0, nng_listen, b, "inproc://c20", NULL, 0) == 0 &&
-	    CK(A_CONN | A_TMO, nng_dial, a, "inproc://c20", NULL, 0) == 0) {
-		if (!wait_pipes(g_tmo_conn)) {
-			note_loss("no-connection");
-		}
+	if (link_connect(&L) == 0) {
+		(void) link_round(&L);
 	}
-	close_sock(a);
-	close_sock(b);
+	if (want_pass2()) {
+		begin_pass2();
+		link_pass2(&L);
+	}
+	link_close(&L);
 }
 
 // ---------------------------------------------------------------- HTTP
@@ -1578,10 +2230,13 @@ http_dyn_handler(nng_http *conn, void *arg, nng_aio *aio)
 	size_t len;
 	(void) arg;
 	nng_http_get_body(conn, &body, &len);
-	note_call("nng_http_copy_body");
-	if ((rv = ck_("nng_http_copy_body", 0, (int) nng_http_copy_body(conn, body, len))) != 0 ||
-	    (rv = ck_("nng_http_set_header", 0,
-	         (int) nng_http_set_header(conn, "Content-Type", "text/plain"))) != 0) {
+	// (runs in a library thread: results are classified like API calls
+	// of pass 1 or pass 2, whichever the program is in)
+	if ((rv = (int) nng_http_copy_body(conn, body, len)) != 0 ||
+	    (rv = (int) nng_http_set_header(conn, "Content-Type", "text/plain")) != 0) {
+		if (rv != NNG_ENOMEM || g_pass == 2) {
+			note_violation("bad-rv:http handler step returned %s", errname(rv));
+		}
 		nng_aio_finish(aio, (nng_err) rv);
 		return;
 	}
@@ -1633,103 +2288,372 @@ raw_http_read(int fd, char *buf, size_t cap, int timeout_ms, int *status, bool *
 	return (long) n;
 }
 
-static void
+// one request from a raw peer.  pass 1: anything short of the expected
+// answer is a tolerated loss; returns true when it was served as expected.
+static bool
 raw_http_request(int port, const char *req, const char *what, int expect)
 {
 	char buf[4096];
 	int  status;
 	bool complete;
+	char why[64];
 	int  fd = vf_tcp_connect((uint16_t) port, 1000);
 	if (fd < 0) {
 		if (errno == EADDRNOTAVAIL || errno == EADDRINUSE) {
 			sh->env_skip = 1;
-		} else {
-			note_loss("http:connect-refused");
+			return false;
 		}
-		return;
+		snprintf(why, sizeof(why), "http:connect-refused");
+		goto lost;
 	}
 	(void) vf_fd_write_all(fd, req, strlen(req), 1000);
 	long n = raw_http_read(fd, buf, sizeof(buf), g_tmo_io, &status, &complete);
 	close(fd);
 	if (n == 0) {
-		note_loss("http:connection-dropped");
+		snprintf(why, sizeof(why), "http:connection-dropped");
 	} else if (status == 0) {
 		note_violation("bad-data:%s response is not HTTP", what);
+		return false;
 	} else if (status == expect && complete) {
-		// served
+		return true;
 	} else if (status >= 500 && status <= 599) {
-		note_loss("http:5xx"); // the server said it could not
+		snprintf(why, sizeof(why), "http:5xx"); // the server said it could not
 	} else if (!complete) {
-		note_loss("http:truncated-response");
+		snprintf(why, sizeof(why), "http:truncated-response");
 	} else {
 		note_violation("bad-data:%s status %d", what, status);
+		return false;
+	}
+lost:
+	if (g_soft) {
+		snprintf(g_last_fail, sizeof(g_last_fail), "%s:%s", what, why);
+	} else {
+		note_loss(why);
+	}
+	return false;
+}
+
+// pass 2: the same request must be served now
+static void
+raw_http_request_p2(int port, const char *req, const char *what, int expect)
+{
+	for (int attempt = 0;; attempt++) {
+		g_soft  = true;
+		bool ok = raw_http_request(port, req, what, expect);
+		g_soft  = false;
+		if (ok || sh->env_skip || sh->n_note != 0) {
+			return;
+		}
+		if (!p2_more(attempt)) {
+			note_wedged("%s", g_last_fail);
+			return;
+		}
+		vf_msleep(20);
 	}
 }
 
+typedef struct {
+	const char *path;
+	const char *req;
+	int         expect;
+	bool        added;
+} http_route;
+
+static const char http_page[] = "<html>static page</html>";
+static char       http_dir[64], http_f1[96], http_f2[96], http_longloc[300];
+
+static int
+http_add_route(nng_http_server *srv, http_route *r)
+{
+	nng_http_handler *h = NULL;
+	int               rv;
+	if (r->added) {
+		return 0;
+	}
+	if (!strcmp(r->path, "/static")) {
+		rv = CK(0, nng_http_handler_alloc_static, &h, r->path, http_page, sizeof(http_page) - 1, "text/html");
+	} else if (!strcmp(r->path, "/dyn")) {
+		rv = CK(0, nng_http_handler_alloc, &h, r->path, http_dyn_handler);
+		if (rv == 0) {
+			nng_http_handler_set_method(h, "POST");
+			nng_http_handler_collect_body(h, true, 1024);
+		}
+	} else if (!strcmp(r->path, "/file")) {
+		rv = CK(0, nng_http_handler_alloc_file, &h, r->path, http_f1);
+	} else if (!strcmp(r->path, "/dir")) {
+		rv = CK(0, nng_http_handler_alloc_directory, &h, r->path, http_dir);
+	} else if (!strcmp(r->path, "/old")) {
+		rv = CK(0, nng_http_handler_alloc_redirect, &h, r->path,
+		    NNG_HTTP_STATUS_STATUS_MOVED_PERMANENTLY, "/file");
+	} else if (!strcmp(r->path, "/old2")) {
+		rv = CK(0, nng_http_handler_alloc_redirect, &h, r->path,
+		    NNG_HTTP_STATUS_STATUS_MOVED_PERMANENTLY, http_longloc);
+	} else {
+		return 0; // no handler: served by the error page
+	}
+	if (rv != 0) {
+		return rv;
+	}
+	if ((rv = CK(0, nng_http_server_add_handler, srv, h)) != 0) {
+		nng_http_handler_free(h);
+		return rv;
+	}
+	r->added = true;
+	return 0;
+}
+
+// pa->a: 0 static/function handlers, 1 file/directory/redirect handlers
 static void
 prog_http_server(const parg *pa)
 {
-	nng_url          *url = NULL;
-	nng_http_server  *srv = NULL;
-	nng_http_handler *h1 = NULL, *h2 = NULL;
-	int               port = 0;
-	static const char page[] = "<html>static page</html>";
-	(void) pa;
+	nng_url         *url = NULL;
+	nng_http_server *srv = NULL;
+	int              port = 0;
+	bool             started = false, errpage = false;
+	http_route       routes0[] = {
+                { "/static", "GET /static HTTP/1.1\r\nHost: c20\r\n\r\n", 200, false },
+                { "/dyn", "POST /dyn HTTP/1.1\r\nHost: c20\r\nContent-Length: 5\r\n\r\nhello", 200, false },
+                { "/missing", "GET /missing HTTP/1.1\r\nHost: c20\r\n\r\n", 404, false },
+                { NULL, NULL, 0, false },
+	};
+	http_route routes1[] = {
+		{ "/file", "GET /file HTTP/1.1\r\nHost: c20\r\n\r\n", 200, false },
+		{ "/dir", "GET /dir/f.txt HTTP/1.1\r\nHost: c20\r\n\r\n", 200, false },
+		{ "/dir-index", "GET /dir/ HTTP/1.1\r\nHost: c20\r\n\r\n", 200, false },
+		{ "/old", "GET /old HTTP/1.1\r\nHost: c20\r\n\r\n", 301, false },
+		{ "/old2", "GET /old2 HTTP/1.1\r\nHost: c20\r\n\r\n", 301, false },
+		{ NULL, NULL, 0, false },
+	};
+	http_route *routes = pa->a ? routes1 : routes0;
+	if (pa->a) {
+		snprintf(http_dir, sizeof(http_dir), "/tmp/c20h-%d", (int) getpid());
+		snprintf(http_f1, sizeof(http_f1), "%s/f.txt", http_dir);
+		snprintf(http_f2, sizeof(http_f2), "%s/index.html", http_dir);
+		memset(http_longloc, 'l', sizeof(http_longloc) - 1);
+		http_longloc[0] = '/';
+		mkdir(http_dir, 0700);
+		FILE *f = fopen(http_f1, "w");
+		if (f == NULL) {
+			child_harness_fail("cannot create %s", http_f1);
+		}
+		fputs("file body\n", f);
+		fclose(f);
+		if ((f = fopen(http_f2, "w")) != NULL) {
+			fputs("<html>index</html>\n", f);
+			fclose(f);
+		}
+	}
 	SETUP(nng_url_parse, &url, "http://127.0.0.1:0");
 	arm();
-	if (CK(0, nng_http_server_hold, &srv, url) != 0) {
-		goto out;
-	}
-	if (CK(0, nng_http_handler_alloc_static, &h1, "/static", page, sizeof(page) - 1, "text/html") == 0) {
-		if (CK(0, nng_http_server_add_handler, srv, h1) != 0) {
-			nng_http_handler_free(h1);
+	for (;;) {
+		int rv = 0;
+		if (srv == NULL && (rv = CK(0, nng_http_server_hold, &srv, url)) != 0) {
+			srv = NULL;
 		}
-	}
-	if (CK(0, nng_http_handler_alloc, &h2, "/dyn", http_dyn_handler) == 0) {
-		nng_http_handler_set_method(h2, "POST");
-		nng_http_handler_collect_body(h2, true, 1024);
-		if (CK(0, nng_http_server_add_handler, srv, h2) != 0) {
-			nng_http_handler_free(h2);
+		if (srv != NULL) {
+			for (http_route *r = routes; r->path != NULL; r++) {
+				if (http_add_route(srv, r) != 0) {
+					rv = NNG_ENOMEM;
+				}
+			}
+			if (!errpage) {
+				if (CK(0, nng_http_server_set_error_page, srv, NNG_HTTP_STATUS_NOT_FOUND,
+				        "<html>nope</html>") == 0) {
+					errpage = true;
+				} else {
+					rv = NNG_ENOMEM;
+				}
+			}
+			// set-up refused cleanly: nothing to serve in this pass
+			if (rv == 0 && !started) {
+				if ((rv = CK(A_PORT0, nng_http_server_start, srv)) == 0) {
+					started = true;
+				}
+			}
+			if (rv == 0 && started && port == 0) {
+				rv = CK(0, nng_http_server_get_port, srv, &port);
+			}
+			if (rv == 0 && port != 0) {
+				for (http_route *r = routes; r->path != NULL && !sh->env_skip; r++) {
+					if (g_pass == 1) {
+						(void) raw_http_request(port, r->req, r->path + 1, r->expect);
+					} else {
+						raw_http_request_p2(port, r->req, r->path + 1, r->expect);
+					}
+				}
+			}
 		}
+		if (!want_pass2()) {
+			break;
+		}
+		begin_pass2();
+		g_tmo_io = 1500; // per request; they are repeated
 	}
-	(void) CK(0, nng_http_server_set_error_page, srv, NNG_HTTP_STATUS_NOT_FOUND, "<html>nope</html>");
-	if (sh->n_enomem != 0) {
-		goto out; // set-up was refused cleanly: nothing to serve
-	}
-	if (CK(0, nng_http_server_start, srv) != 0) {
-		goto out;
-	}
-	if (CK(0, nng_http_server_get_port, srv, &port) != 0) {
-		goto stop;
-	}
-	raw_http_request(port, "GET /static HTTP/1.1\r\nHost: c20\r\n\r\n", "static", 200);
-	raw_http_request(port,
-	    "POST /dyn HTTP/1.1\r\nHost: c20\r\nContent-Length: 5\r\n\r\nhello", "dyn", 200);
-	raw_http_request(port, "GET /missing HTTP/1.1\r\nHost: c20\r\n\r\n", "missing", 404);
-stop:
-	settle();
-	note_call("nng_http_server_stop");
-	nng_http_server_stop(srv);
-out:
 	if (srv != NULL) {
+		settle();
+		if (started) {
+			note_call("nng_http_server_stop");
+			nng_http_server_stop(srv);
+		}
 		note_call("nng_http_server_release");
 		nng_http_server_release(srv);
 	}
 	nng_url_free(url);
+	if (pa->a) {
+		unlink(http_f1);
+		unlink(http_f2);
+		rmdir(http_dir);
+	}
 }
 
-// client against a raw server; pa->a: 0 content-length, 1 chunked
+// one connect + transact against the raw server; variant: 0 content-length,
+// 1 chunked, 2 long URI / long header
+static int
+http_client_round(nng_http_client *cli, nng_aio *aio, int lfd, int variant)
+{
+	static char req[32768], longpath[700], longval[9500];
+	nng_http   *conn = NULL;
+	int         cfd = -1, rv;
+	int         cfds[8], ncfd = 0;
+	nng_aio_set_timeout(aio, g_tmo_conn);
+	note_call("nng_http_client_connect");
+	nng_http_client_connect(cli, aio);
+	nng_aio_wait(aio);
+	if ((rv = ck_("nng_http_client_connect", A_CONN | A_TMO, (int) nng_aio_result(aio))) != 0) {
+		goto out;
+	}
+	conn = nng_aio_get_output(aio, 0);
+	if (conn == NULL) {
+		note_violation("bad-data:http connect succeeded without a connection");
+		rv = -1;
+		goto out;
+	}
+	const char *path = "/thing";
+	if (variant == 2) { // URI beyond the inline buffer, head beyond the 8 KB buffer
+		memset(longpath, 'p', sizeof(longpath) - 1);
+		longpath[0] = '/';
+		memset(longval, 'v', sizeof(longval) - 1);
+		path = longpath;
+		if ((rv = CK(0, nng_http_set_header, conn, "X-Long", longval)) != 0) {
+			goto out;
+		}
+	}
+	if ((rv = CK(0, nng_http_set_uri, conn, path, "a=b")) != 0 ||
+	    (rv = CK(0, nng_http_set_header, conn, "X-C20", "yes")) != 0 ||
+	    (rv = CK(0, nng_http_add_header, conn, "X-C20", "again")) != 0 ||
+	    (rv = CK(0, nng_http_copy_body, conn, "ping", 4)) != 0) {
+		goto out;
+	}
+	nng_http_set_method(conn, "POST");
+	nng_aio_set_timeout(aio, g_tmo_io);
+	note_call("nng_http_transact");
+	nng_http_transact(conn, aio);
+	// raw side: the request arrives on one of the connections in the
+	// backlog (those of earlier, given-up attempts may still be there):
+	// read the request head + 4 body bytes from whichever carries it
+	size_t   n   = 0;
+	uint64_t end = vf_now_ns() + (uint64_t) g_tmo_io * 1000000ULL;
+	bool     got = false;
+	while (!got && vf_now_ns() < end) {
+		struct pollfd pfds[9];
+		pfds[0].fd     = lfd;
+		pfds[0].events = ncfd < 8 ? POLLIN : 0;
+		for (int i = 0; i < ncfd; i++) {
+			pfds[i + 1].fd     = cfds[i];
+			pfds[i + 1].events = POLLIN;
+		}
+		if (poll(pfds, (nfds_t) ncfd + 1, 20) <= 0) {
+			continue;
+		}
+		if (pfds[0].revents & POLLIN) {
+			int fd = vf_tcp_accept(lfd, 0);
+			if (fd >= 0) {
+				cfds[ncfd++] = fd;
+			}
+			continue;
+		}
+		for (int i = 0; i < ncfd; i++) {
+			if (!(pfds[i + 1].revents & (POLLIN | POLLHUP | POLLERR))) {
+				continue;
+			}
+			if (cfd != cfds[i]) {
+				n = 0; // (only one connection ever carries data)
+			}
+			ssize_t r = read(cfds[i], req + n, sizeof(req) - 1 - n);
+			if (r <= 0) { // a connection that was given up
+				close(cfds[i]);
+				cfds[i] = cfds[--ncfd];
+				if (cfd == cfds[ncfd]) {
+					cfd = -1;
+				}
+				break;
+			}
+			cfd = cfds[i];
+			n += (size_t) r;
+			req[n] = 0;
+			char *he = strstr(req, "\r\n\r\n");
+			if (he != NULL && n >= (size_t) (he + 4 - req) + 4) {
+				got = true;
+			}
+			break;
+		}
+	}
+	if (got) {
+		if ((variant != 2 && strncmp(req, "POST /thing?a=b HTTP/1.1\r\n", 26) != 0) ||
+		    strncmp(req, "POST /", 6) != 0 || strstr(req, "X-C20: yes") == NULL) {
+			note_violation("bad-data:http request on the wire is wrong");
+		}
+		const char *resp = variant == 1
+		    ? "HTTP/1.1 200 OK\r\nTransfer-Encoding: chunked\r\nX-R: 1\r\n\r\n"
+		      "3\r\nabc\r\n4\r\ndefg\r\n0\r\n\r\n"
+		    : "HTTP/1.1 200 OK\r\nContent-Length: 7\r\nX-R: 1\r\n\r\nabcdefg";
+		(void) vf_fd_write_all(cfd, resp, strlen(resp), 1000);
+	} else if (n > 0 && !g_soft) {
+		note_loss("http:request-truncated");
+	}
+	nng_aio_wait(aio);
+	if (getenv("C20_TRACE") != NULL) {
+		fprintf(stderr, "[http round pass %d] got=%d n=%zu transact=%s\n", g_pass, (int) got, n,
+		    errname((int) nng_aio_result(aio)));
+	}
+	if ((rv = ck_("nng_http_transact", A_CONN | A_TMO, (int) nng_aio_result(aio))) == 0) {
+		void  *body;
+		size_t len;
+		nng_http_get_body(conn, &body, &len);
+		if (nng_http_get_status(conn) != 200 || len != 7 || memcmp(body, "abcdefg", 7) != 0) {
+			note_violation("bad-data:http response status %d len %zu",
+			    (int) nng_http_get_status(conn), len);
+			rv = -1;
+		}
+		const char *hv = nng_http_get_header(conn, "X-R");
+		if (hv == NULL || strcmp(hv, "1") != 0) {
+			note_violation("bad-data:http response header lost");
+			rv = -1;
+		}
+	}
+out:
+	if (conn != NULL) {
+		if (g_pass == 1) {
+			settle();
+		}
+		note_call("nng_http_close");
+		nng_http_close(conn);
+	}
+	for (int i = 0; i < ncfd; i++) {
+		close(cfds[i]);
+	}
+	return rv;
+}
+
+// client against a raw server; pa->a: 0 content-length, 1 chunked, 2 long
 static void
 prog_http_client(const parg *pa)
 {
 	nng_url         *url = NULL;
 	nng_http_client *cli = NULL;
-	nng_http        *conn = NULL;
 	nng_aio         *aio = NULL;
 	uint16_t         port = 0;
 	char             ustr[64];
-	static char      req[32768], longpath[700], longval[9500];
-	int              cfd = -1;
 	int              lfd = vf_tcp_listen(&port);
 	if (lfd < 0) {
 		sh->env_skip = 1; // no ephemeral port left on this machine
@@ -1738,99 +2662,34 @@ prog_http_client(const parg *pa)
 	snprintf(ustr, sizeof(ustr), "http://127.0.0.1:%d/", port);
 	SETUP(nng_url_parse, &url, ustr);
 	arm();
-	if (CK(0, nng_http_client_alloc, &cli, url) != 0 ||
-	    CK(0, nng_aio_alloc, &aio, NULL, NULL) != 0) {
-		goto out;
-	}
-	nng_aio_set_timeout(aio, g_tmo_conn);
-	note_call("nng_http_client_connect");
-	nng_http_client_connect(cli, aio);
-	nng_aio_wait(aio);
-	if (ck_("nng_http_client_connect", A_CONN | A_TMO, (int) nng_aio_result(aio)) != 0) {
-		goto out;
-	}
-	conn = nng_aio_get_output(aio, 0);
-	if (conn == NULL) {
-		note_violation("bad-data:http connect succeeded without a connection");
-		goto out;
-	}
-	cfd = vf_tcp_accept(lfd, 2000);
-	if (cfd < 0) {
-		child_harness_fail("raw http server: accept failed");
-	}
-	const char *path = "/thing";
-	if (pa->a == 2) { // URI beyond the inline buffer, head beyond the 8 KB buffer
-		memset(longpath, 'p', sizeof(longpath) - 1);
-		longpath[0] = '/';
-		memset(longval, 'v', sizeof(longval) - 1);
-		path = longpath;
-		if (CK(0, nng_http_set_header, conn, "X-Long", longval) != 0) {
-			goto out;
+	for (;;) {
+		if (cli == NULL && CK(0, nng_http_client_alloc, &cli, url) != 0) {
+			cli = NULL;
 		}
-	}
-	if (CK(0, nng_http_set_uri, conn, path, "a=b") != 0 ||
-	    CK(0, nng_http_set_header, conn, "X-C20", "yes") != 0 ||
-	    CK(0, nng_http_add_header, conn, "X-C20", "again") != 0 ||
-	    CK(0, nng_http_copy_body, conn, "ping", 4) != 0) {
-		goto out;
-	}
-	nng_http_set_method(conn, "POST");
-	nng_aio_set_timeout(aio, g_tmo_io);
-	note_call("nng_http_transact");
-	nng_http_transact(conn, aio);
-	// raw side: read the request head + 4 body bytes, then answer
-	size_t   n   = 0;
-	uint64_t end = vf_now_ns() + (uint64_t) g_tmo_io * 1000000ULL;
-	bool     got = false;
-	while (n + 1 < sizeof(req) && vf_now_ns() < end) {
-		struct pollfd pfd = { cfd, POLLIN, 0 };
-		if (poll(&pfd, 1, 20) <= 0) {
-			continue;
+		if (aio == NULL && CK(0, nng_aio_alloc, &aio, NULL, NULL) != 0) {
+			aio = NULL;
 		}
-		ssize_t r = read(cfd, req + n, sizeof(req) - 1 - n);
-		if (r <= 0) {
+		if (cli != NULL && aio != NULL) {
+			if (g_pass == 1) {
+				(void) http_client_round(cli, aio, lfd, pa->a);
+			} else {
+				for (int attempt = 0;; attempt++) {
+					g_soft = true;
+					int rv = http_client_round(cli, aio, lfd, pa->a);
+					g_soft = false;
+					if (rv <= 0 || !p2_more(attempt)) {
+						if (rv > 0) {
+							note_wedged("%s", g_last_fail);
+						}
+						break;
+					}
+				}
+			}
+		}
+		if (!want_pass2()) {
 			break;
 		}
-		n += (size_t) r;
-		req[n] = 0;
-		char *he = strstr(req, "\r\n\r\n");
-		if (he != NULL && n >= (size_t) (he + 4 - req) + 4) {
-			got = true;
-			break;
-		}
-	}
-	if (got) {
-		if ((pa->a != 2 && strncmp(req, "POST /thing?a=b HTTP/1.1\r\n", 26) != 0) ||
-		    strncmp(req, "POST /", 6) != 0 || strstr(req, "X-C20: yes") == NULL) {
-			note_violation("bad-data:http request on the wire is wrong");
-		}
-		const char *resp = pa->a == 1
-		    ? "HTTP/1.1 200 OK\r\nTransfer-Encoding: chunked\r\nX-R: 1\r\n\r\n"
-		      "3\r\nabc\r\n4\r\ndefg\r\n0\r\n\r\n"
-		    : "HTTP/1.1 200 OK\r\nContent-Length: 7\r\nX-R: 1\r\n\r\nabcdefg";
-		(void) vf_fd_write_all(cfd, resp, strlen(resp), 1000);
-	} else if (n > 0) {
-		note_loss("http:request-truncated");
-	}
-	nng_aio_wait(aio);
-	if (ck_("nng_http_transact", A_CONN | A_TMO, (int) nng_aio_result(aio)) == 0) {
-		void  *body;
-		size_t len;
-		nng_http_get_body(conn, &body, &len);
-		if (nng_http_get_status(conn) != 200 || len != 7 || memcmp(body, "abcdefg", 7) != 0) {
-			note_violation("bad-data:http response status %d len %zu",
-			    (int) nng_http_get_status(conn), len);
-		}
-		const char *hv = nng_http_get_header(conn, "X-R");
-		if (hv == NULL || strcmp(hv, "1") != 0) {
-			note_violation("bad-data:http response header lost");
-		}
-	}
-out:
-	settle();
-	if (conn != NULL) {
-		note_call("nng_http_close");
-		nng_http_close(conn);
+		begin_pass2();
 	}
 	if (aio != NULL) {
 		nng_aio_free(aio);
@@ -1840,134 +2699,114 @@ out:
 		nng_http_client_free(cli);
 	}
 	nng_url_free(url);
-	if (cfd >= 0) {
-		close(cfd);
-	}
 	close(lfd);
 }
 
 // ---------------------------------------------------------------- streams
-// pa->a: 0 = ws://, 1 = tcp://, 2 = ipc://
-static void
-prog_stream(const parg *pa)
+typedef struct {
+	nng_stream_dialer   *d;
+	nng_stream_listener *l;
+	nng_aio             *daio, *laio, *aio1, *aio2;
+	bool                 listening, opts_done;
+	char                 uri[96], luri[96];
+	int                  kind; // 0 ws, 1 tcp, 2 ipc
+	bool                 opts;
+} c20_streams;
+
+// connect (dial + accept on the same listener), one message each way, close
+static int
+stream_round(c20_streams *S)
 {
-	nng_stream_dialer   *d = NULL;
-	nng_stream_listener *l = NULL;
-	nng_aio             *daio = NULL, *laio = NULL, *aio1 = NULL, *aio2 = NULL;
-	nng_stream          *c1 = NULL, *c2 = NULL;
-	nng_iov              iov;
-	char                 buf1[8], buf2[8], uri[96], luri[96];
-	int                  port = 0;
-	const char          *scheme = pa->a == 0 ? "ws" : "tcp";
-	if (pa->a == 2) {
-		snprintf(luri, sizeof(luri), "ipc:///tmp/c20s-%d.sock", (int) getpid());
-	} else {
-		snprintf(luri, sizeof(luri), "%s://127.0.0.1:0%s", scheme, pa->a == 0 ? "/c20" : "");
-	}
-	arm();
-	if (CK(0, nng_stream_listener_alloc, &l, luri) != 0 ||
-	    CK(0, nng_stream_listener_listen, l) != 0) {
-		goto out;
-	}
-	if (pa->a == 2) {
-		snprintf(uri, sizeof(uri), "%s", luri);
-	} else {
-		if (CK(0, nng_stream_listener_get_int, l, NNG_OPT_BOUND_PORT, &port) != 0) {
-			goto out;
-		}
-		snprintf(uri, sizeof(uri), "%s://127.0.0.1:%d%s", scheme, port, pa->a == 0 ? "/c20" : "");
-	}
-	if (CK(0, nng_stream_dialer_alloc, &d, uri) != 0) {
-		goto out;
-	}
-	if (pa->b) {
-		(void) CK(0, nng_stream_listener_set_string, l, NNG_OPT_WS_PROTOCOL, "c20.proto");
-		(void) CK(0, nng_stream_dialer_set_string, d, NNG_OPT_WS_PROTOCOL, "c20.proto");
-		(void) CK(0, nng_stream_dialer_set_string, d, NNG_OPT_WS_HEADER "X-C20", "one");
-		(void) CK(0, nng_stream_dialer_set_string, d, NNG_OPT_WS_HEADER "X-C20", "two");
-		(void) CK(0, nng_stream_listener_set_string, l, NNG_OPT_WS_HEADER "X-Srv", "yes");
-		(void) CK(0, nng_stream_dialer_set_bool, d, NNG_OPT_WS_SEND_TEXT, true);
-		(void) CK(0, nng_stream_listener_set_bool, l, NNG_OPT_WS_RECV_TEXT, true);
-		(void) CK(0, nng_stream_dialer_set_size, d, NNG_OPT_WS_SENDMAXFRAME, 3);
-		if (sh->n_enomem != 0) {
-			goto out;
-		}
-	}
-	if (CK(0, nng_aio_alloc, &daio, NULL, NULL) != 0 ||
-	    CK(0, nng_aio_alloc, &laio, NULL, NULL) != 0 ||
-	    CK(0, nng_aio_alloc, &aio1, NULL, NULL) != 0 ||
-	    CK(0, nng_aio_alloc, &aio2, NULL, NULL) != 0) {
-		goto out;
-	}
-	nng_aio_set_timeout(daio, g_tmo_conn);
-	nng_aio_set_timeout(laio, g_tmo_conn);
-	nng_aio_set_timeout(aio1, g_tmo_io);
-	nng_aio_set_timeout(aio2, g_tmo_io);
+	nng_stream *c1 = NULL, *c2 = NULL;
+	nng_iov     iov;
+	char        buf1[8], buf2[8];
+	int         rv = 0;
+	nng_aio_set_timeout(S->daio, g_tmo_conn);
+	nng_aio_set_timeout(S->laio, g_tmo_conn);
+	nng_aio_set_timeout(S->aio1, g_tmo_io);
+	nng_aio_set_timeout(S->aio2, g_tmo_io);
 	note_call("nng_stream_dialer_dial");
-	nng_stream_dialer_dial(d, daio);
+	nng_stream_dialer_dial(S->d, S->daio);
 	note_call("nng_stream_listener_accept");
-	nng_stream_listener_accept(l, laio);
-	nng_aio_wait(laio);
-	nng_aio_wait(daio);
-	int r1 = ck_("nng_stream_listener_accept", A_CONN | A_TMO, (int) nng_aio_result(laio));
-	int r2 = ck_("nng_stream_dialer_dial", A_CONN | A_TMO | A_PEER, (int) nng_aio_result(daio));
+	nng_stream_listener_accept(S->l, S->laio);
+	nng_aio_wait(S->laio);
+	nng_aio_wait(S->daio);
+	int r1 = ck_("nng_stream_listener_accept", A_CONN | A_TMO, (int) nng_aio_result(S->laio));
+	int r2 = ck_("nng_stream_dialer_dial", A_CONN | A_TMO | A_PEER, (int) nng_aio_result(S->daio));
 	if (r1 == 0) {
-		c1 = nng_aio_get_output(laio, 0);
+		c1 = nng_aio_get_output(S->laio, 0);
 	}
 	if (r2 == 0) {
-		c2 = nng_aio_get_output(daio, 0);
+		c2 = nng_aio_get_output(S->daio, 0);
 	}
 	if (c1 == NULL || c2 == NULL) {
 		if ((r1 == 0 && c1 == NULL) || (r2 == 0 && c2 == NULL)) {
 			note_violation("bad-data:stream connect succeeded without a stream");
+			rv = -1;
+		} else {
+			rv = r1 ? r1 : r2;
 		}
 		goto out;
 	}
-	for (int dir = 0; dir < 2; dir++) {
+	for (int dir = 0; dir < 2 && rv == 0; dir++) {
 		nng_stream *from = dir ? c2 : c1, *to = dir ? c1 : c2;
 		memcpy(buf1, dir ? "PONG" : "PING", 5);
 		memset(buf2, 0, sizeof(buf2));
-		iov.iov_buf = buf1;
-		iov.iov_len = 5;
-		(void) nng_aio_set_iov(aio1, 1, &iov);
-		iov.iov_buf = buf2;
-		iov.iov_len = 5;
-		(void) nng_aio_set_iov(aio2, 1, &iov);
-		note_call("nng_stream_send");
-		nng_stream_send(from, aio1);
-		// a byte stream: the 5 bytes may arrive in pieces (ws frames)
-		size_t got = 0;
-		int    s2  = 0;
+		// a byte stream: a send may be partial (ws frame size limit) and
+		// the 5 bytes may arrive in pieces
+		size_t sent = 0, got = 0;
+		int    s1 = 0, s2 = 0;
+		while (sent < 5) {
+			iov.iov_buf = buf1 + sent;
+			iov.iov_len = 5 - sent;
+			(void) nng_aio_set_iov(S->aio1, 1, &iov);
+			note_call("nng_stream_send");
+			nng_stream_send(from, S->aio1);
+			nng_aio_wait(S->aio1);
+			s1 = ck_("nng_stream_send", A_CONN | A_TMO, (int) nng_aio_result(S->aio1));
+			if (s1 != 0) {
+				break;
+			}
+			if (nng_aio_count(S->aio1) == 0 || nng_aio_count(S->aio1) > 5 - sent) {
+				note_violation("bad-data:stream send count %zu", nng_aio_count(S->aio1));
+				s1 = -1;
+				break;
+			}
+			sent += nng_aio_count(S->aio1);
+		}
+		if (s1 != 0) {
+			rv = s1;
+			break;
+		}
 		while (got < 5) {
 			iov.iov_buf = buf2 + got;
 			iov.iov_len = 5 - got;
-			(void) nng_aio_set_iov(aio2, 1, &iov);
+			(void) nng_aio_set_iov(S->aio2, 1, &iov);
 			note_call("nng_stream_recv");
-			nng_stream_recv(to, aio2);
-			nng_aio_wait(aio2);
-			s2 = ck_("nng_stream_recv", A_CONN | A_TMO, (int) nng_aio_result(aio2));
+			nng_stream_recv(to, S->aio2);
+			nng_aio_wait(S->aio2);
+			s2 = ck_("nng_stream_recv", A_CONN | A_TMO, (int) nng_aio_result(S->aio2));
 			if (s2 != 0) {
 				break;
 			}
-			if (nng_aio_count(aio2) == 0 || nng_aio_count(aio2) > 5 - got) {
-				note_violation("bad-data:stream recv count %zu", nng_aio_count(aio2));
+			if (nng_aio_count(S->aio2) == 0 || nng_aio_count(S->aio2) > 5 - got) {
+				note_violation("bad-data:stream recv count %zu", nng_aio_count(S->aio2));
 				s2 = -1;
 				break;
 			}
-			got += nng_aio_count(aio2);
+			got += nng_aio_count(S->aio2);
 		}
-		nng_aio_wait(aio1);
-		int s1 = ck_("nng_stream_send", A_CONN | A_TMO, (int) nng_aio_result(aio1));
-		if (s1 != 0 || s2 != 0) {
-			break;
-		}
-		if (memcmp(buf1, buf2, 5) != 0) {
+		if (s2 != 0) {
+			rv = s2;
+		} else if (memcmp(buf1, buf2, 5) != 0) {
 			note_violation("bad-data:stream payload differs");
-			break;
+			rv = -1;
 		}
 	}
 out:
-	settle();
+	if (g_pass == 1) {
+		settle();
+	}
 	if (c1 != NULL) {
 		note_call("nng_stream_close");
 		nng_stream_close(c1);
@@ -1980,39 +2819,126 @@ out:
 		nng_stream_stop(c2);
 		nng_stream_free(c2);
 	}
-	if (l != NULL) {
+	return rv;
+}
+
+// everything that is not there yet; 0 when a round can be made
+static int
+stream_setup(c20_streams *S)
+{
+	int rv, port = 0;
+	const char *scheme = S->kind == 0 ? "ws" : "tcp";
+	if (S->l == NULL && (rv = CK(0, nng_stream_listener_alloc, &S->l, S->luri)) != 0) {
+		S->l = NULL;
+		return rv;
+	}
+	if (!S->listening) {
+		if ((rv = CK(S->kind == 2 ? 0 : A_PORT0, nng_stream_listener_listen, S->l)) != 0) {
+			return rv;
+		}
+		S->listening = true;
+	}
+	if (S->uri[0] == 0) {
+		if (S->kind == 2) {
+			snprintf(S->uri, sizeof(S->uri), "%s", S->luri);
+		} else {
+			if ((rv = CK(0, nng_stream_listener_get_int, S->l, NNG_OPT_BOUND_PORT, &port)) != 0) {
+				return rv;
+			}
+			snprintf(S->uri, sizeof(S->uri), "%s://127.0.0.1:%d%s", scheme, port, S->kind == 0 ? "/c20" : "");
+		}
+	}
+	if (S->d == NULL && (rv = CK(0, nng_stream_dialer_alloc, &S->d, S->uri)) != 0) {
+		S->d = NULL;
+		return rv;
+	}
+	if (S->opts && !S->opts_done) {
+		int e0 = sh->n_enomem + sh->n_wedged;
+		(void) CK(0, nng_stream_listener_set_string, S->l, NNG_OPT_WS_PROTOCOL, "c20.proto");
+		(void) CK(0, nng_stream_dialer_set_string, S->d, NNG_OPT_WS_PROTOCOL, "c20.proto");
+		(void) CK(0, nng_stream_dialer_set_string, S->d, NNG_OPT_WS_HEADER "X-C20", "one");
+		(void) CK(0, nng_stream_dialer_set_string, S->d, NNG_OPT_WS_HEADER "X-C20", "two");
+		(void) CK(0, nng_stream_listener_set_string, S->l, NNG_OPT_WS_HEADER "X-Srv", "yes");
+		(void) CK(0, nng_stream_dialer_set_bool, S->d, NNG_OPT_WS_SEND_TEXT, true);
+		(void) CK(0, nng_stream_listener_set_bool, S->l, NNG_OPT_WS_RECV_TEXT, true);
+		(void) CK(0, nng_stream_dialer_set_size, S->d, NNG_OPT_WS_SENDMAXFRAME, 3);
+		if (sh->n_enomem + sh->n_wedged != e0) {
+			return NNG_ENOMEM;
+		}
+		S->opts_done = true;
+	}
+	nng_aio **aios[4] = { &S->daio, &S->laio, &S->aio1, &S->aio2 };
+	for (int i = 0; i < 4; i++) {
+		if (*aios[i] == NULL && (rv = CK(0, nng_aio_alloc, aios[i], NULL, NULL)) != 0) {
+			*aios[i] = NULL;
+			return rv;
+		}
+	}
+	return 0;
+}
+
+// pa->a: 0 = ws://, 1 = tcp://, 2 = ipc://; pa->b: ws options
+static void
+prog_stream(const parg *pa)
+{
+	c20_streams S;
+	memset(&S, 0, sizeof(S));
+	S.kind = pa->a;
+	S.opts = pa->b != 0;
+	if (pa->a == 2) {
+		snprintf(S.luri, sizeof(S.luri), "ipc:///tmp/c20s-%d.sock", (int) getpid());
+	} else {
+		snprintf(S.luri, sizeof(S.luri), "%s://127.0.0.1:0%s", pa->a == 0 ? "ws" : "tcp", pa->a == 0 ? "/c20" : "");
+	}
+	arm();
+	for (;;) {
+		if (stream_setup(&S) == 0) {
+			if (g_pass == 1) {
+				(void) stream_round(&S);
+			} else {
+				for (int attempt = 0;; attempt++) {
+					g_soft = true;
+					int rv = stream_round(&S);
+					g_soft = false;
+					if (rv <= 0 || !p2_more(attempt)) {
+						if (rv > 0) {
+							note_wedged("%s", g_last_fail);
+						}
+						break;
+					}
+				}
+			}
+		}
+		if (!want_pass2()) {
+			break;
+		}
+		begin_pass2();
+	}
+	settle();
+	if (S.l != NULL) {
 		note_call("nng_stream_listener_stop");
-		nng_stream_listener_stop(l);
+		nng_stream_listener_stop(S.l);
 	}
-	if (d != NULL) {
+	if (S.d != NULL) {
 		note_call("nng_stream_dialer_stop");
-		nng_stream_dialer_stop(d);
+		nng_stream_dialer_stop(S.d);
 	}
-	// an accepted/dialed stream nobody took (result was an error after
-	// the other side succeeded) is owned by the aio's output only if the
-	// result was 0, handled above.
-	if (daio != NULL) {
-		nng_aio_free(daio);
+	nng_aio *aios[4] = { S.daio, S.laio, S.aio1, S.aio2 };
+	for (int i = 0; i < 4; i++) {
+		if (aios[i] != NULL) {
+			nng_aio_free(aios[i]);
+		}
 	}
-	if (laio != NULL) {
-		nng_aio_free(laio);
-	}
-	if (aio1 != NULL) {
-		nng_aio_free(aio1);
-	}
-	if (aio2 != NULL) {
-		nng_aio_free(aio2);
-	}
-	if (l != NULL) {
+	if (S.l != NULL) {
 		note_call("nng_stream_listener_free");
-		nng_stream_listener_free(l);
+		nng_stream_listener_free(S.l);
 	}
-	if (d != NULL) {
+	if (S.d != NULL) {
 		note_call("nng_stream_dialer_free");
-		nng_stream_dialer_free(d);
+		nng_stream_dialer_free(S.d);
 	}
 	if (pa->a == 2) {
-		unlink(luri + 6);
+		unlink(S.luri + 6);
 	}
 }
 
@@ -2026,80 +2952,6 @@ out:
 			(void) ck_(#fn, 0, rv_);                        \
 		}                                                       \
 	} while (0)
-
-static void
-prog_http_files(const parg *pa)
-{
-	nng_url          *url = NULL;
-	nng_http_server  *srv = NULL;
-	nng_http_handler *h = NULL;
-	int               port = 0;
-	char              dir[64], f1[96], f2[96];
-	(void) pa;
-	snprintf(dir, sizeof(dir), "/tmp/c20h-%d", (int) getpid());
-	snprintf(f1, sizeof(f1), "%s/f.txt", dir);
-	snprintf(f2, sizeof(f2), "%s/index.html", dir);
-	mkdir(dir, 0700);
-	FILE *f = fopen(f1, "w");
-	if (f == NULL) {
-		child_harness_fail("cannot create %s", f1);
-	}
-	fputs("file body\n", f);
-	fclose(f);
-	f = fopen(f2, "w");
-	if (f != NULL) {
-		fputs("<html>index</html>\n", f);
-		fclose(f);
-	}
-	SETUP(nng_url_parse, &url, "http://127.0.0.1:0");
-	arm();
-	if (CK(0, nng_http_server_hold, &srv, url) != 0) {
-		goto out;
-	}
-	if (CK(0, nng_http_handler_alloc_file, &h, "/file", f1) == 0 &&
-	    CK(0, nng_http_server_add_handler, srv, h) != 0) {
-		nng_http_handler_free(h);
-	}
-	if (CK(0, nng_http_handler_alloc_directory, &h, "/dir", dir) == 0 &&
-	    CK(0, nng_http_server_add_handler, srv, h) != 0) {
-		nng_http_handler_free(h);
-	}
-	if (CK(0, nng_http_handler_alloc_redirect, &h, "/old", NNG_HTTP_STATUS_STATUS_MOVED_PERMANENTLY, "/file") == 0 &&
-	    CK(0, nng_http_server_add_handler, srv, h) != 0) {
-		nng_http_handler_free(h);
-	}
-	static char longloc[300];
-	memset(longloc, 'l', sizeof(longloc) - 1);
-	longloc[0] = '/';
-	if (CK(0, nng_http_handler_alloc_redirect, &h, "/old2", NNG_HTTP_STATUS_STATUS_MOVED_PERMANENTLY, longloc) == 0 &&
-	    CK(0, nng_http_server_add_handler, srv, h) != 0) {
-		nng_http_handler_free(h);
-	}
-	if (sh->n_enomem != 0) {
-		goto out;
-	}
-	if (CK(0, nng_http_server_start, srv) != 0) {
-		goto out;
-	}
-	if (CK(0, nng_http_server_get_port, srv, &port) == 0) {
-		raw_http_request(port, "GET /file HTTP/1.1\r\nHost: c20\r\n\r\n", "file", 200);
-		raw_http_request(port, "GET /dir/f.txt HTTP/1.1\r\nHost: c20\r\n\r\n", "dir-file", 200);
-		raw_http_request(port, "GET /dir/ HTTP/1.1\r\nHost: c20\r\n\r\n", "dir-index", 200);
-		raw_http_request(port, "GET /old HTTP/1.1\r\nHost: c20\r\n\r\n", "redirect", 301);
-		raw_http_request(port, "GET /old2 HTTP/1.1\r\nHost: c20\r\n\r\n", "redirect-long", 301);
-	}
-	note_call("nng_http_server_stop");
-	nng_http_server_stop(srv);
-out:
-	if (srv != NULL) {
-		note_call("nng_http_server_release");
-		nng_http_server_release(srv);
-	}
-	nng_url_free(url);
-	unlink(f1);
-	unlink(f2);
-	rmdir(dir);
-}
 
 // endpoints from parsed URLs
 static void
@@ -2115,31 +2967,46 @@ prog_ep_url(const parg *pa)
 	open_pair_of(X_PAIR0, &a, &b, false, false);
 	SETUP(nng_url_parse, &lu, "tcp://127.0.0.1:0");
 	arm();
-	if (CK(0, nng_listen_url, b, lu, &l, 0) != 0) {
-		goto out;
+	if (CK(A_PORT0, nng_listen_url, b, lu, &l, 0) != 0) {
+		goto p2;
 	}
 	if (CK(0, nng_listener_get_int, l, NNG_OPT_BOUND_PORT, &port) != 0) {
-		goto out;
+		goto p2;
 	}
 	snprintf(durl, sizeof(durl), "tcp://127.0.0.1:%d", port);
 	if (CK(0, nng_url_parse, &du, durl) != 0) {
-		goto out;
+		goto p2;
 	}
 	if (CK(0, nng_dialer_create_url, &d, a, du) == 0) {
 		if (CK(A_CONN | A_TMO, nng_dialer_start, d, 0) == 0) {
 			if (!wait_pipes(g_tmo_conn)) {
 				note_loss("no-connection");
 			} else {
-				(void) xchg(a, b, 40, 8);
+				(void) xchg(a, b, 40);
 			}
 		}
+		// the same connection once more, made by nng_dial_url
 		(void) CK(0, nng_dialer_close, d);
+		for (int i = 0; i < 2000 && (atomic_load(&pc_a) > 0 || atomic_load(&pc_b) > 0); i++) {
+			vf_msleep(1);
+		}
+		if (CK(A_CONN | A_TMO, nng_dial_url, a, du, &d2, 0) == 0) {
+			if (!wait_pipes(g_tmo_conn)) {
+				note_loss("no-connection");
+			} else {
+				(void) xchg(b, a, 40);
+			}
+		}
 	}
+	// (a second, unused listener made from a URL)
 	if (CK(0, nng_listener_create_url, &l2, a, lu) == 0) {
-		(void) CK(0, nng_listener_start, l2, 0);
+		(void) CK(A_PORT0, nng_listener_start, l2, 0);
 	}
-	(void) CK(A_CONN | A_TMO, nng_dial_url, b, du, &d2, NNG_FLAG_NONBLOCK);
-out:
+p2:
+	if (want_pass2()) {
+		begin_pass2();
+		pair_pass2(a, b, X_PAIR0);
+	}
 	close_sock(a);
 	close_sock(b);
 	nng_url_free(lu);
@@ -2160,35 +3027,54 @@ prog_udp_raw(const parg *pa)
 	sa1.s_in.sa_addr   = htonl(0x7f000001);
 	sa2                = sa1;
 	arm();
-	if (CK(0, nng_udp_open, &u1, &sa1) != 0 || CK(0, nng_udp_open, &u2, &sa2) != 0 ||
-	    CK(0, nng_udp_sockname, u2, &sa2) != 0 || CK(0, nng_aio_alloc, &aio1, NULL, NULL) != 0 ||
-	    CK(0, nng_aio_alloc, &aio2, NULL, NULL) != 0) {
-		goto out;
-	}
-	nng_aio_set_timeout(aio1, g_tmo_io);
-	nng_aio_set_timeout(aio2, g_tmo_io);
-	to          = sa2;
-	iov.iov_buf = msg;
-	iov.iov_len = sizeof(msg);
-	(void) nng_aio_set_iov(aio1, 1, &iov);
-	(void) nng_aio_set_input(aio1, 0, &to);
-	iov.iov_buf = rbuf;
-	iov.iov_len = sizeof(rbuf);
-	(void) nng_aio_set_iov(aio2, 1, &iov);
-	(void) nng_aio_set_input(aio2, 0, &from);
-	note_call("nng_udp_recv");
-	nng_udp_recv(u2, aio2);
-	note_call("nng_udp_send");
-	nng_udp_send(u1, aio1);
-	nng_aio_wait(aio1);
-	nng_aio_wait(aio2);
-	if (ck_("nng_udp_send", A_TMO, (int) nng_aio_result(aio1)) == 0 &&
-	    ck_("nng_udp_recv", A_TMO, (int) nng_aio_result(aio2)) == 0) {
-		if (nng_aio_count(aio2) != sizeof(msg) || memcmp(rbuf, msg, sizeof(msg)) != 0) {
-			note_violation("bad-data:udp datagram differs");
+	for (;;) {
+		if ((u1 != NULL || CK(0, nng_udp_open, &u1, &sa1) == 0) &&
+		    (u2 != NULL || CK(0, nng_udp_open, &u2, &sa2) == 0) &&
+		    CK(0, nng_udp_sockname, u2, &sa2) == 0 &&
+		    (aio1 != NULL || CK(0, nng_aio_alloc, &aio1, NULL, NULL) == 0) &&
+		    (aio2 != NULL || CK(0, nng_aio_alloc, &aio2, NULL, NULL) == 0)) {
+			for (int attempt = 0;; attempt++) {
+				g_soft = g_pass == 2;
+				nng_aio_set_timeout(aio1, g_tmo_io);
+				nng_aio_set_timeout(aio2, g_tmo_io);
+				to          = sa2;
+				iov.iov_buf = msg;
+				iov.iov_len = sizeof(msg);
+				(void) nng_aio_set_iov(aio1, 1, &iov);
+				(void) nng_aio_set_input(aio1, 0, &to);
+				iov.iov_buf = rbuf;
+				iov.iov_len = sizeof(rbuf);
+				(void) nng_aio_set_iov(aio2, 1, &iov);
+				(void) nng_aio_set_input(aio2, 0, &from);
+				note_call("nng_udp_recv");
+				nng_udp_recv(u2, aio2);
+				note_call("nng_udp_send");
+				nng_udp_send(u1, aio1);
+				nng_aio_wait(aio1);
+				nng_aio_wait(aio2);
+				int r1 = ck_("nng_udp_send", A_TMO, (int) nng_aio_result(aio1));
+				int r2 = ck_("nng_udp_recv", A_TMO, (int) nng_aio_result(aio2));
+				g_soft = false;
+				if (r1 == 0 && r2 == 0) {
+					if (nng_aio_count(aio2) != sizeof(msg) || memcmp(rbuf, msg, sizeof(msg)) != 0) {
+						note_violation("bad-data:udp datagram differs");
+					}
+					break;
+				}
+				if (g_pass == 1) {
+					break;
+				}
+				if (!p2_more(attempt)) {
+					note_wedged("%s", g_last_fail);
+					break;
+				}
+			}
 		}
+		if (!want_pass2()) {
+			break;
+		}
+		begin_pass2();
 	}
-out:
 	if (aio1 != NULL) {
 		nng_aio_free(aio1);
 	}
@@ -2206,12 +3092,29 @@ out:
 }
 
 // pub -> sub with two subscribed contexts (the message is duplicated)
+static int
+sub_ctx_round(nng_socket a, nng_ctx c1, nng_ctx c2)
+{
+	nng_msg *m   = NULL;
+	uint32_t tag = ++g_tag;
+	int      rv;
+	if ((rv = msg_make(&m, 20, tag)) != 0) {
+		return rv;
+	}
+	if ((rv = CK(A_TMO, nng_sendmsg, a, m, 0)) != 0) {
+		nng_msg_free(m);
+		return rv;
+	}
+	int r1 = recv_tagged(recv_ctx, &c1, 20, tag, NULL);
+	int r2 = recv_tagged(recv_ctx, &c2, 20, tag, NULL);
+	return r1 ? r1 : r2;
+}
+
 static void
 prog_sub_ctx(const parg *pa)
 {
 	nng_socket a, b;
 	nng_ctx    c1, c2;
-	nng_msg   *m = NULL;
 	(void) pa;
 	SETUP(nng_pub0_open, &a);
 	SETUP(nng_sub0_open, &b);
@@ -2227,23 +3130,24 @@ prog_sub_ctx(const parg *pa)
 	SETUP(nng_ctx_set_ms, c2, NNG_OPT_RECVTIMEO, g_tmo_io);
 	connect_inproc(a, b, "inproc://c20");
 	arm();
-	if (CK(0, nng_msg_alloc, &m, 20) != 0) {
-		goto out;
-	}
-	if (CK(A_TMO, nng_sendmsg, a, m, 0) != 0) {
-		nng_msg_free(m);
-		goto out;
-	}
-	for (int i = 0; i < 2; i++) {
-		m = NULL;
-		if (CK(A_TMO, nng_ctx_recvmsg, i ? c2 : c1, &m, 0) == 0) {
-			if (nng_msg_len(m) != 20) {
-				note_violation("bad-data:sub ctx message len %zu", nng_msg_len(m));
+	(void) sub_ctx_round(a, c1, c2);
+	if (want_pass2()) {
+		begin_pass2();
+		p2_timeouts(a);
+		(void) nng_ctx_set_ms(c1, NNG_OPT_RECVTIMEO, g_tmo_io);
+		(void) nng_ctx_set_ms(c2, NNG_OPT_RECVTIMEO, g_tmo_io);
+		for (int attempt = 0;; attempt++) {
+			g_soft = true;
+			int rv = wait_pipes(g_tmo_conn) ? sub_ctx_round(a, c1, c2) : NNG_ETIMEDOUT;
+			g_soft = false;
+			if (rv <= 0 || !p2_more(attempt)) {
+				if (rv > 0) {
+					note_wedged("%s", g_last_fail[0] ? g_last_fail : "no-connection");
+				}
+				break;
 			}
-			nng_msg_free(m);
 		}
 	}
-out:
 	(void) CK(0, nng_ctx_close, c1);
 	(void) CK(0, nng_ctx_close, c2);
 	close_sock(a);
@@ -2251,13 +3155,50 @@ out:
 }
 
 // one sender, two receivers (shared message bodies): 0 bus, 1 pub/sub, 2 survey
+static int
+fanout_round(int kind, nng_socket a, nng_socket b, nng_socket c)
+{
+	nng_msg *m   = NULL;
+	uint32_t tag = ++g_tag;
+	int      rv, first = 0;
+	if ((rv = msg_make(&m, 30, tag)) != 0) {
+		return rv;
+	}
+	if ((rv = CK(A_TMO, nng_sendmsg, a, m, 0)) != 0) {
+		nng_msg_free(m);
+		return rv;
+	}
+	for (int i = 0; i < 2; i++) {
+		nng_socket r = i ? c : b;
+		m            = NULL;
+		if ((rv = recv_tagged(recv_sock, &r, 30, tag, &m)) != 0) {
+			first = first ? first : rv;
+			continue;
+		}
+		if (kind == 2) {
+			if ((rv = CK(A_TMO, nng_sendmsg, r, m, 0)) != 0) {
+				nng_msg_free(m);
+				first = first ? first : rv;
+			}
+		} else {
+			nng_msg_free(m);
+		}
+	}
+	if (kind == 2) {
+		for (int i = 0; i < 2 && first == 0; i++) {
+			if ((rv = recv_tagged(recv_sock, &a, 30, tag, NULL)) != 0) {
+				first = rv;
+			}
+		}
+	}
+	return first;
+}
+
 static void
 prog_fanout(const parg *pa)
 {
 	nng_socket a, b, c;
-	nng_msg   *m = NULL;
 	int        kind = pa->a;
-	static _Atomic int pc_c;
 	switch (kind) {
 	case 0:
 		SETUP(nng_bus0_open, &a);
@@ -2287,110 +3228,264 @@ prog_fanout(const parg *pa)
 	SETUP(nng_listen, a, "inproc://c20", NULL, 0);
 	SETUP(nng_dial, b, "inproc://c20", NULL, 0);
 	SETUP(nng_dial, c, "inproc://c20", NULL, 0);
-	for (int i = 0; i < 5000 && (atomic_load(&pc_a) < 2 || atomic_load(&pc_b) < 1 || atomic_load(&pc_c) < 1); i++) {
-		vf_msleep(1);
-	}
-	if (atomic_load(&pc_a) < 2) {
+	if (!wait_counts(&pc_a, 2, &pc_b, 1, 5000) || !wait_counts(&pc_a, 2, &pc_c, 1, 5000)) {
 		child_harness_fail("setup: fan-out connections missing");
 	}
 	arm();
-	if (CK(0, nng_msg_alloc, &m, 30) != 0) {
-		goto out;
-	}
-	if (CK(A_TMO, nng_sendmsg, a, m, 0) != 0) {
-		nng_msg_free(m);
-		goto out;
-	}
-	for (int i = 0; i < 2; i++) {
-		nng_socket r = i ? c : b;
-		m            = NULL;
-		if (CK(A_TMO, nng_recvmsg, r, &m, 0) != 0) {
-			continue;
-		}
-		if (nng_msg_len(m) != 30) {
-			note_violation("bad-data:fan-out message len %zu", nng_msg_len(m));
-		}
+	(void) fanout_round(kind, a, b, c);
+	if (want_pass2()) {
+		begin_pass2();
+		p2_timeouts(a);
+		p2_timeouts(b);
+		p2_timeouts(c);
 		if (kind == 2) {
-			if (CK(A_TMO, nng_sendmsg, r, m, 0) != 0) {
-				nng_msg_free(m);
-			}
-		} else {
-			nng_msg_free(m);
+			(void) nng_socket_set_ms(a, NNG_OPT_SURVEYOR_SURVEYTIME, 2 * g_tmo_io);
 		}
-	}
-	if (kind == 2) {
-		for (int i = 0; i < 2; i++) {
-			m = NULL;
-			if (CK(A_TMO, nng_recvmsg, a, &m, 0) != 0) {
+		for (int attempt = 0;; attempt++) {
+			g_soft = true;
+			drain(b);
+			drain(c);
+			drain(a);
+			int rv = (wait_counts(&pc_a, 2, &pc_b, 1, g_tmo_conn) && wait_counts(&pc_a, 2, &pc_c, 1, g_tmo_conn))
+			    ? fanout_round(kind, a, b, c)
+			    : NNG_ETIMEDOUT;
+			g_soft = false;
+			if (rv <= 0 || !p2_more(attempt)) {
+				if (rv > 0) {
+					note_wedged("%s", g_last_fail[0] ? g_last_fail : "no-connection");
+				}
 				break;
 			}
-			nng_msg_free(m);
 		}
 	}
-out:
 	close_sock(a);
 	close_sock(b);
 	close_sock(c);
 }
 
 static nng_pipe last_pipe;
-static void
-pipe_cb_keep(nng_pipe p, nng_pipe_ev ev, void *arg)
-{
-	if (ev == NNG_PIPE_EV_ADD_POST) {
-		last_pipe = p;
-	}
-	pipe_cb(p, ev, arg);
-}
 
 // pipe properties on a live connection
 static void
 prog_pipe_props(const parg *pa)
 {
-	nng_socket   a, b;
-	nng_listener l;
-	char         url[64], durl[96];
-	int          port = 0;
-	char        *s    = NULL;
+	c20_link     L;
+	char        *s = NULL;
 	const char  *cs;
 	nng_sockaddr sa;
 	bool         bv;
-	SETUP(nng_pair0_open, &a);
-	SETUP(nng_pair0_open, &b);
-	set_timeouts(a);
-	set_timeouts(b);
-	atomic_store(&pc_a, 0);
-	atomic_store(&pc_b, 0);
-	SETUP(nng_pipe_notify, a, NNG_PIPE_EV_ADD_POST, pipe_cb_keep, &pc_a);
-	SETUP(nng_pipe_notify, b, NNG_PIPE_EV_ADD_POST, pipe_cb, &pc_b);
-	snprintf(url, sizeof(url), pa->a == VF_T_WS ? "ws://127.0.0.1:0/c20" : "tcp://127.0.0.1:0");
-	SETUP(nng_listen, b, url, &l, 0);
-	SETUP(nng_listener_get_int, l, NNG_OPT_BOUND_PORT, &port);
-	snprintf(durl, sizeof(durl), pa->a == VF_T_WS ? "ws://127.0.0.1:%d/c20" : "tcp://127.0.0.1:%d", port);
-	SETUP(nng_dial, a, durl, NULL, 0);
-	if (!wait_pipes(5000)) {
-		child_harness_fail("setup: no connection for pipe properties");
+	link_open_connected(&L, X_PAIR0, pa->a);
+	{ // find a's pipe: one exchange tells us
+		nng_msg *m = NULL;
+		SETUP(nng_msg_alloc, &m, 8);
+		SETUP(nng_sendmsg, L.b, m, 0);
+		m = NULL;
+		SETUP(nng_recvmsg, L.a, &m, 0);
+		last_pipe = nng_msg_get_pipe(m);
+		nng_msg_free(m);
 	}
 	arm();
-	PROBE(nng_pipe_get_strdup, last_pipe, NNG_OPT_WS_REQUEST_URI, &s);
-	if (s != NULL) {
-		nng_strfree(s);
-		s = NULL;
+	for (;;) {
+		PROBE(nng_pipe_get_strdup, last_pipe, NNG_OPT_WS_REQUEST_URI, &s);
+		if (s != NULL) {
+			nng_strfree(s);
+			s = NULL;
+		}
+		PROBE(nng_pipe_get_strdup, last_pipe, NNG_OPT_WS_HEADER "Host", &s);
+		if (s != NULL) {
+			nng_strfree(s);
+			s = NULL;
+		}
+		PROBE(nng_pipe_get_string, last_pipe, NNG_OPT_WS_HEADER "Upgrade", &cs);
+		PROBE(nng_pipe_get_scheme, last_pipe, &cs);
+		PROBE(nng_pipe_peer_addr, last_pipe, &sa);
+		PROBE(nng_pipe_self_addr, last_pipe, &sa);
+		PROBE(nng_pipe_get_bool, last_pipe, NNG_OPT_TCP_NODELAY, &bv);
+		if (g_pass == 1) {
+			(void) link_round(&L);
+		}
+		if (!want_pass2()) {
+			break;
+		}
+		begin_pass2();
+		link_pass2(&L);
 	}
-	PROBE(nng_pipe_get_strdup, last_pipe, NNG_OPT_WS_HEADER "Host", &s);
-	if (s != NULL) {
-		nng_strfree(s);
-	}
-	PROBE(nng_pipe_get_string, last_pipe, NNG_OPT_WS_HEADER "Upgrade", &cs);
-	PROBE(nng_pipe_get_scheme, last_pipe, &cs);
-	PROBE(nng_pipe_peer_addr, last_pipe, &sa);
-	PROBE(nng_pipe_self_addr, last_pipe, &sa);
-	PROBE(nng_pipe_get_bool, last_pipe, NNG_OPT_TCP_NODELAY, &bv);
-	(void) xchg(a, b, 50, 9);
 	settle();
 	PROBE(nng_pipe_close, last_pipe); // ENOENT when the connection was the loss
-	close_sock(a);
-	close_sock(b);
+	link_close(&L);
+}
+
+// ---------------------------------------------------------------- timers and background work
+// REQ resends after RESENDTIME: the REP side drops the first copy and
+// answers the second one.
+static void
+prog_req_resend(const parg *pa)
+{
+	c20_link L;
+	nng_msg *m = NULL, *r = NULL;
+	uint32_t tag;
+	link_open_connected(&L, X_REQREP, pa->a);
+	SETUP(nng_socket_set_ms, L.a, NNG_OPT_REQ_RESENDTIME, 60);
+	(void) nng_socket_set_ms(L.a, NNG_OPT_REQ_RESENDTICK, 10);
+	arm();
+	tag = ++g_tag;
+	if (msg_make(&m, 24, tag) != 0) {
+		goto p2;
+	}
+	if (CK(A_TMO | A_CONN, nng_sendmsg, L.a, m, 0) != 0) {
+		nng_msg_free(m);
+		goto p2;
+	}
+	if (recv_tagged(recv_sock, &L.b, 24, tag, NULL) != 0) { // first copy: ignored
+		goto p2;
+	}
+	if (recv_tagged(recv_sock, &L.b, 24, tag, &r) != 0) { // the resent copy
+		goto p2;
+	}
+	if (CK(A_TMO | A_CONN, nng_sendmsg, L.b, r, 0) != 0) {
+		nng_msg_free(r);
+		goto p2;
+	}
+	(void) recv_tagged(recv_sock, &L.a, 24, tag, NULL);
+p2:
+	if (want_pass2()) {
+		begin_pass2();
+		(void) nng_socket_set_ms(L.a, NNG_OPT_REQ_RESENDTIME, 60000);
+		link_pass2(&L);
+	}
+	link_close(&L);
+}
+
+// the listener goes away and comes back: the dialer reconnects by itself
+static void
+prog_redial(const parg *pa)
+{
+	c20_link L;
+	link_open_connected(&L, X_PAIR0, pa->a);
+	L.len_ab = L.len_ba = 40;
+	arm();
+	if (CK(0, nng_listener_close, L.l) == 0) {
+		L.listening = L.have_l = false;
+	}
+	// the old pipes must go before the new ones can be told apart
+	for (int i = 0; i < 2000 && (atomic_load(&pc_a) > 0 || atomic_load(&pc_b) > 0); i++) {
+		vf_msleep(1);
+	}
+	if (link_listen(&L) == 0) {
+		if (!wait_pipes(g_tmo_conn)) {
+			note_loss("no-connection");
+		} else {
+			(void) link_round(&L);
+		}
+	}
+	if (want_pass2()) {
+		begin_pass2();
+		link_pass2(&L);
+	}
+	link_close(&L);
+}
+
+// a second dialer arrives at a listener that already serves one
+static void
+prog_two_accept(const parg *pa)
+{
+	c20_link   L;
+	nng_socket a2;
+	nng_dialer d2 = NNG_DIALER_INITIALIZER;
+	bool       dialed2 = false;
+	link_open_connected(&L, X_REQREP, pa->a);
+	SETUP(nng_req0_open, &a2);
+	set_timeouts(a2);
+	watch_pipes(a2, &pc_c);
+	if (round_trip(X_REQREP, L.a, L.b, 32, 32) != 0) {
+		child_harness_fail("setup: first client cannot talk");
+	}
+	arm();
+	for (;;) {
+		for (int attempt = 0;; attempt++) {
+			g_soft = g_pass == 2;
+			int rv = 0;
+			if (!dialed2) {
+				if ((rv = CK(A_CONN | A_TMO | A_PEER, nng_dial, a2, L.durl, &d2, 0)) == 0) {
+					dialed2 = true;
+				}
+			}
+			if (rv == 0 && !wait_counts(&pc_c, 1, &pc_b, 2, g_tmo_conn)) {
+				if (g_soft) {
+					snprintf(g_last_fail, sizeof(g_last_fail), "no-connection");
+				} else {
+					note_loss("no-connection");
+				}
+				rv = NNG_ETIMEDOUT;
+			}
+			if (rv == 0) {
+				if (g_pass == 2) {
+					drain(L.b);
+				}
+				rv = round_trip(X_REQREP, a2, L.b, 32, 32);
+			}
+			if (rv == 0) {
+				rv = round_trip(X_REQREP, L.a, L.b, 32, 32); // the first one still works
+			}
+			g_soft = false;
+			if (g_pass == 1 || rv <= 0) {
+				break;
+			}
+			if (!p2_more(attempt)) {
+				note_wedged("%s", g_last_fail);
+				break;
+			}
+		}
+		if (!want_pass2()) {
+			break;
+		}
+		begin_pass2();
+		p2_timeouts(L.a);
+		p2_timeouts(L.b);
+		p2_timeouts(a2);
+	}
+	close_sock(a2);
+	link_close(&L);
+}
+
+// a survey expires (timer), the next one is answered
+static void
+prog_survey_expiry(const parg *pa)
+{
+	c20_link L;
+	nng_msg *m = NULL;
+	uint32_t tag;
+	(void) pa;
+	link_open_connected(&L, X_SURVEY, VF_T_INPROC);
+	SETUP(nng_socket_set_ms, L.a, NNG_OPT_SURVEYOR_SURVEYTIME, 60);
+	arm();
+	tag = ++g_tag;
+	if (msg_make(&m, 16, tag) == 0) {
+		if (CK(A_TMO | A_CONN, nng_sendmsg, L.a, m, 0) != 0) {
+			nng_msg_free(m);
+		} else {
+			int rv;
+			(void) recv_tagged(recv_sock, &L.b, 16, tag, NULL); // nobody answers
+			note_call("nng_recvmsg");
+			m  = NULL;
+			rv = nng_recvmsg(L.a, &m, 0);
+			if (rv == 0) {
+				nng_msg_free(m);
+				note_violation("bad-data:a survey nobody answered got a response");
+			} else if (rv != NNG_ETIMEDOUT && rv != NNG_ESTATE) {
+				// (ESTATE: the survey had already expired)
+				(void) ck_("nng_recvmsg", 0, rv);
+			}
+			(void) CK(0, nng_socket_set_ms, L.a, NNG_OPT_SURVEYOR_SURVEYTIME, g_tmo_io);
+			(void) link_round(&L); // the next survey
+		}
+	}
+	if (want_pass2()) {
+		begin_pass2();
+		(void) CK(0, nng_socket_set_ms, L.a, NNG_OPT_SURVEYOR_SURVEYTIME, g_tmo_io);
+		link_pass2(&L);
+	}
+	link_close(&L);
 }
 
 // ======================================================================
@@ -2485,7 +3580,7 @@ build_progs(void)
 	add_prog(0, prog_stream, 2, 0, NULL, "stream-ipc");
 	add_prog(0, prog_stream, 0, 1, NULL, "stream-ws-opts");
 	add_prog(PF_THOROUGH, prog_tran, VF_T_N, 0, NULL, "tran-udp");
-	add_prog(0, prog_http_files, 0, 0, NULL, "http-server-files");
+	add_prog(0, prog_http_server, 1, 0, NULL, "http-server-files");
 	add_prog(0, prog_ep_url, 0, 0, NULL, "endpoints-url");
 	add_prog(PF_THOROUGH, prog_udp_raw, 0, 0, NULL, "udp-raw");
 	add_prog(0, prog_sub_ctx, 0, 0, NULL, "sub-two-ctx");
@@ -2502,6 +3597,15 @@ build_progs(void)
 		add_prog(0, prog_conn, k, 1, NULL, "conn-raw-%s", x_names[k]);
 	}
 	add_prog(0, prog_http_client, 2, 0, NULL, "http-client-long");
+	// timer / background driven paths
+	add_prog(0, prog_req_resend, VF_T_INPROC, 0, NULL, "req-resend-inproc");
+	add_prog(0, prog_req_resend, VF_T_TCP, 0, NULL, "req-resend-tcp");
+	add_prog(0, prog_redial, VF_T_INPROC, 0, NULL, "redial-inproc");
+	add_prog(0, prog_redial, VF_T_IPC, 0, NULL, "redial-ipc");
+	add_prog(0, prog_redial, VF_T_TCP, 0, NULL, "redial-tcp");
+	add_prog(0, prog_two_accept, VF_T_INPROC, 0, NULL, "second-accept-inproc");
+	add_prog(0, prog_two_accept, VF_T_TCP, 0, NULL, "second-accept-tcp");
+	add_prog(0, prog_survey_expiry, 0, 0, NULL, "survey-expiry");
 }
 
 // ======================================================================
@@ -2580,6 +3684,15 @@ static void
 child_main(const c20_case *c)
 {
 	const c20_prog *p = &progs[c->prog];
+	// debugging aid: C20_PT=site,permille,min_us,max_us delays a named
+	// perturbation point of the library inside every child
+	const char *pt = getenv("C20_PT");
+	if (pt != NULL) {
+		int a = 0, b = 0, lo = 0, hi = 0;
+		if (sscanf(pt, "%d,%d,%d,%d", &a, &b, &lo, &hi) == 4) {
+			vf_pt_target(a, b, lo, hi);
+		}
+	}
 	al_mode           = c->kind;
 	al_target         = c->hash;
 	al_j              = c->j;
@@ -3061,8 +4174,10 @@ zygote_run(const zy_req *rq, zy_rep *rp)
 	if (pid == 0) {
 		prctl(PR_SET_PDEATHSIG, SIGKILL);
 		signal(SIGABRT, SIG_DFL);
-		dup2(g_errfd, 1);
-		dup2(g_errfd, 2);
+		if (getenv("C20_TRACE") == NULL) { // debugging aid: see the child's output
+			dup2(g_errfd, 1);
+			dup2(g_errfd, 2);
+		}
 		child_main(c);
 		_exit(0);
 	}
@@ -3210,7 +4325,7 @@ static psite p_sites[C20_MAXSITES];
 static int   p_n;
 static long  p_total; // smallest number of armed allocations of a profile run
 
-static int g_case_timeout = 12;
+static int g_case_timeout = 30;
 
 // every return address seen above the allocator in any profile run (census)
 #define SEEN_SZ 16384
@@ -3440,7 +4555,7 @@ judge(const c20_case *c, const char *casedesc)
 		// policy: a hang is re-run once before it is believed
 		vf_stat("timeouts_rerun", 1);
 		vf_watchdog(180);
-		res = run_child(c, 30, true);
+		res = run_child(c, 45, true);
 		if (res != R_TIMEOUT) {
 			vf_stat("timeouts_not_repeated", 1);
 		}
@@ -3473,7 +4588,7 @@ judge(const c20_case *c, const char *casedesc)
 	if (res == R_TIMEOUT) {
 		hang_where(g_stacks, where, sizeof(where));
 		snprintf(detail, sizeof(detail),
-		    "no progress for %d s and again for 30 s during %s; threads inside the library at: %s; site %s",
+		    "no progress for %d s and again for 45 s during %s; threads inside the library at: %s; site %s",
 		    g_case_timeout, sh->cur_call, where, sdesc);
 		viol(sfn, "hang", NULL, casedesc, detail);
 		vf_class("%s|%s|hang@%s", pname, sfn, where);
@@ -3494,6 +4609,9 @@ judge(const c20_case *c, const char *casedesc)
 		snprintf(detail, sizeof(detail),
 		    "child died (status 0x%x) in %s during %s (phase %d); site %s; %.500s", g_status, where,
 		    sh->cur_call, sh->phase, sdesc, rep ? rep : g_err);
+		if (getenv("C20_DUMP") != NULL) { // debugging aid: the child's full stderr
+			fprintf(stderr, "---- child stderr ----\n%s\n----\n", g_err);
+		}
 		// a crash in the calling thread is deterministic: name the place
 		viol(sfn, kind, g_crash_sync ? where : NULL, casedesc, detail);
 		vf_class("%s|%s|%s@%s", pname, sfn, kind, where);
@@ -3557,6 +4675,23 @@ judge(const c20_case *c, const char *casedesc)
 		viol(sfn, sh->aerr[i].what, lfn, casedesc, detail);
 		bad++;
 	}
+	if (sh->pass2) {
+		vf_stat("pass2_runs", 1);
+	}
+	for (int i = 0; i < sh->n_wedged && i < 4; i++) {
+		char k2[128];
+		snprintf(k2, sizeof(k2), "wedged:%s", sh->wedged[i]);
+		slug(k2, 70);
+		snprintf(detail, sizeof(detail),
+		    "after the failure, with nothing armed any more, the same objects still do not work: %s; "
+		    "first pass: ENOMEM from '%s', loss '%s'; site %s",
+		    sh->wedged[i], sh->enomem_call, sh->n_loss ? sh->loss[0] : "", sdesc);
+		viol(sfn, k2, NULL, casedesc, detail);
+		bad++;
+	}
+	if (sh->pass1_enomem_calls > 1) {
+		vf_stat("cases_with_several_enomem_calls", 1);
+	}
 	if (sh->follow_step[0] != 0) {
 		snprintf(kind, sizeof(kind), "followup:%s=%s", sh->follow_step,
 		    sh->follow_rv > 0 ? errname(sh->follow_rv) : "failed");
@@ -3569,6 +4704,9 @@ judge(const c20_case *c, const char *casedesc)
 	if (bad) {
 		vf_class("%s|%s|violation", pname, sfn);
 		return 2;
+	}
+	if (sh->pass2) {
+		vf_stat("pass2_clean", 1);
 	}
 	const char *oc;
 	if (sh->n_enomem > 0) {
@@ -3679,7 +4817,11 @@ main(int argc, char **argv)
 				printf("%-18s %3ld..%-3ld seen=%d  [%s]  %s\n", p->name, p_sites[i].cmin,
 				    p_sites[i].cmax, p_sites[i].seen, f, d);
 			}
-			printf("%-18s sites=%d allocs=%ld\n", p->name, p_n, p_total);
+			printf("%-18s sites=%d allocs=%ld", p->name, p_n, p_total);
+			for (int i = 0; i < sh->n_loss && i < 6; i++) {
+				printf(" loss:%s", sh->loss[i]);
+			}
+			printf("\n");
 			continue;
 		}
 		for (int i = 0; i < p_n; i++) {
